@@ -16,47 +16,77 @@ package kvql
 //@   assigns ctx.Hit, mapof(ctx.FieldCaches), mapof(ctx.FieldChunkKeyCaches), mapof(ctx.FieldChunkCaches)
 //@   ensures[C03, C10] same: err == nil ==> rowsOf(e, chunk, ret)
 //@   ensures own: err == nil ==> isnil(ret) || fresh(ret)
+//@   requires[C05] coh: cohChunk(ctx, chunk) && wfCtxB(ctx) && wfRefs()
+//@   ensures[C05] coh: cohChunk(ctx, chunk)
+//@   ensures[C05] added: ctx != nil && len(chunk) > 0 ==> (forall S B :: has(ctx.FieldChunkKeyCaches, S) ==> old(has(ctx.FieldChunkKeyCaches, S)) || fkOf(S) == ck(chunk, 0))
 //@   ensures[C05] colsok: ctx != nil && old(forall q B :: has(ctx.FieldChunkCaches, q) ==> len(ctx.FieldChunkCaches[q]) >= len(chunk)) ==> (forall q B :: has(ctx.FieldChunkCaches, q) ==> len(ctx.FieldChunkCaches[q]) >= len(chunk))
+//@   ensures[C05] apart: err == nil && ctx != nil ==> (forall S B :: has(ctx.FieldChunkKeyCaches, S) ==> ptr(ctx.FieldChunkKeyCaches[S]) != ptr(ret) || isnil(ret))
+//@   ensures[C05] addfresh: ctx != nil ==> (forall S B :: has(ctx.FieldChunkKeyCaches, S) ==> (old(has(ctx.FieldChunkKeyCaches, S)) && ctx.FieldChunkKeyCaches[S] == old(ctx.FieldChunkKeyCaches[S])) || fresh(ctx.FieldChunkKeyCaches[S]))
 //
 // Literals, key and value.
 //@ func (e *NumberExpr) ExecuteBatch(chunk []KVPair, ctx *ExecuteCtx) (ret []any, err error) implements Expression.ExecuteBatch
-//@   props C03
+//@   props C03 C05
 //@   use forall i Int :: ev_lit(e, ck(chunk, i), cv(chunk, i))
 //@   loop 0
+//@     invariant[C05] coh: cohChunk(ctx, chunk)
+//@     invariant[C05] added: ctx != nil && len(chunk) > 0 ==> (forall S B :: has(ctx.FieldChunkKeyCaches, S) ==> old(has(ctx.FieldChunkKeyCaches, S)) || fkOf(S) == ck(chunk, 0))
+//@     invariant[C05] colsok: ctx != nil && old(forall q B :: has(ctx.FieldChunkCaches, q) ==> len(ctx.FieldChunkCaches[q]) >= len(chunk)) ==> (forall q B :: has(ctx.FieldChunkCaches, q) ==> len(ctx.FieldChunkCaches[q]) >= len(chunk))
+//@     invariant[C05] addfresh: ctx != nil ==> (forall S B :: has(ctx.FieldChunkKeyCaches, S) ==> (old(has(ctx.FieldChunkKeyCaches, S)) && ctx.FieldChunkKeyCaches[S] == old(ctx.FieldChunkKeyCaches[S])) || fresh(ctx.FieldChunkKeyCaches[S]))
 //@     invariant 0 <= i && i <= len(chunk) && len(ret) == len(chunk) && fresh(ret)
 //@     invariant forall j Int :: 0 <= j && j < i ==> ret[j] == AInt(e.Int)
 //@ func (e *FloatExpr) ExecuteBatch(chunk []KVPair, ctx *ExecuteCtx) (ret []any, err error) implements Expression.ExecuteBatch
-//@   props C03
+//@   props C03 C05
 //@   use forall i Int :: ev_lit(e, ck(chunk, i), cv(chunk, i))
 //@   loop 0
+//@     invariant[C05] coh: cohChunk(ctx, chunk)
+//@     invariant[C05] added: ctx != nil && len(chunk) > 0 ==> (forall S B :: has(ctx.FieldChunkKeyCaches, S) ==> old(has(ctx.FieldChunkKeyCaches, S)) || fkOf(S) == ck(chunk, 0))
+//@     invariant[C05] colsok: ctx != nil && old(forall q B :: has(ctx.FieldChunkCaches, q) ==> len(ctx.FieldChunkCaches[q]) >= len(chunk)) ==> (forall q B :: has(ctx.FieldChunkCaches, q) ==> len(ctx.FieldChunkCaches[q]) >= len(chunk))
+//@     invariant[C05] addfresh: ctx != nil ==> (forall S B :: has(ctx.FieldChunkKeyCaches, S) ==> (old(has(ctx.FieldChunkKeyCaches, S)) && ctx.FieldChunkKeyCaches[S] == old(ctx.FieldChunkKeyCaches[S])) || fresh(ctx.FieldChunkKeyCaches[S]))
 //@     invariant 0 <= i && i <= len(chunk) && len(ret) == len(chunk) && fresh(ret)
 //@     invariant forall j Int :: 0 <= j && j < i ==> ret[j] == AFlt(e.Float)
 //@ func (e *BoolExpr) ExecuteBatch(chunk []KVPair, ctx *ExecuteCtx) (ret []any, err error) implements Expression.ExecuteBatch
-//@   props C03
+//@   props C03 C05
 //@   use forall i Int :: ev_lit(e, ck(chunk, i), cv(chunk, i))
 //@   loop 0
+//@     invariant[C05] coh: cohChunk(ctx, chunk)
+//@     invariant[C05] added: ctx != nil && len(chunk) > 0 ==> (forall S B :: has(ctx.FieldChunkKeyCaches, S) ==> old(has(ctx.FieldChunkKeyCaches, S)) || fkOf(S) == ck(chunk, 0))
+//@     invariant[C05] colsok: ctx != nil && old(forall q B :: has(ctx.FieldChunkCaches, q) ==> len(ctx.FieldChunkCaches[q]) >= len(chunk)) ==> (forall q B :: has(ctx.FieldChunkCaches, q) ==> len(ctx.FieldChunkCaches[q]) >= len(chunk))
+//@     invariant[C05] addfresh: ctx != nil ==> (forall S B :: has(ctx.FieldChunkKeyCaches, S) ==> (old(has(ctx.FieldChunkKeyCaches, S)) && ctx.FieldChunkKeyCaches[S] == old(ctx.FieldChunkKeyCaches[S])) || fresh(ctx.FieldChunkKeyCaches[S]))
 //@     invariant 0 <= i && i <= len(chunk) && len(ret) == len(chunk) && fresh(ret)
 //@     invariant forall j Int :: 0 <= j && j < i ==> ret[j] == ABool(e.Bool)
 //@ func (e *StringExpr) ExecuteBatch(chunk []KVPair, ctx *ExecuteCtx) (ret []any, err error) implements Expression.ExecuteBatch
-//@   props C03
+//@   props C03 C05
 //@   use forall i Int :: ev_lit(e, ck(chunk, i), cv(chunk, i))
 //@   loop 0
+//@     invariant[C05] coh: cohChunk(ctx, chunk)
+//@     invariant[C05] added: ctx != nil && len(chunk) > 0 ==> (forall S B :: has(ctx.FieldChunkKeyCaches, S) ==> old(has(ctx.FieldChunkKeyCaches, S)) || fkOf(S) == ck(chunk, 0))
+//@     invariant[C05] colsok: ctx != nil && old(forall q B :: has(ctx.FieldChunkCaches, q) ==> len(ctx.FieldChunkCaches[q]) >= len(chunk)) ==> (forall q B :: has(ctx.FieldChunkCaches, q) ==> len(ctx.FieldChunkCaches[q]) >= len(chunk))
+//@     invariant[C05] addfresh: ctx != nil ==> (forall S B :: has(ctx.FieldChunkKeyCaches, S) ==> (old(has(ctx.FieldChunkKeyCaches, S)) && ctx.FieldChunkKeyCaches[S] == old(ctx.FieldChunkKeyCaches[S])) || fresh(ctx.FieldChunkKeyCaches[S]))
 //@     invariant 0 <= i && i <= len(chunk) && len(ret) == len(chunk) && fresh(ret)
 //@     invariant forall j Int :: 0 <= j && j < i ==> ret[j] == ABytes(e.Data)
 //@ func (e *FieldExpr) ExecuteBatch(chunk []KVPair, ctx *ExecuteCtx) (ret []any, err error) implements Expression.ExecuteBatch
-//@   props C03
+//@   props C03 C05
 //@   use forall i Int :: ev_field(e, ck(chunk, i), cv(chunk, i))
 //@   ensures[C03] fields: err == nil ==> len(ret) == len(chunk) && (forall i Int :: 0 <= i && i < len(chunk) ==> isbytes(ret[i]) && textOf(ret[i]) == ite(e.Field == KeyKW, ck(chunk, i), cv(chunk, i)))
 //@   ifaceassumed same
 //@   loop 0
+//@     invariant[C05] coh: cohChunk(ctx, chunk)
+//@     invariant[C05] added: ctx != nil && len(chunk) > 0 ==> (forall S B :: has(ctx.FieldChunkKeyCaches, S) ==> old(has(ctx.FieldChunkKeyCaches, S)) || fkOf(S) == ck(chunk, 0))
+//@     invariant[C05] colsok: ctx != nil && old(forall q B :: has(ctx.FieldChunkCaches, q) ==> len(ctx.FieldChunkCaches[q]) >= len(chunk)) ==> (forall q B :: has(ctx.FieldChunkCaches, q) ==> len(ctx.FieldChunkCaches[q]) >= len(chunk))
+//@     invariant[C05] addfresh: ctx != nil ==> (forall S B :: has(ctx.FieldChunkKeyCaches, S) ==> (old(has(ctx.FieldChunkKeyCaches, S)) && ctx.FieldChunkKeyCaches[S] == old(ctx.FieldChunkKeyCaches[S])) || fresh(ctx.FieldChunkKeyCaches[S]))
 //@     invariant 0 <= i && i <= len(chunk) && len(ret) == len(chunk) && fresh(ret) && (e.Field == KeyKW || e.Field == ValueKW) && isKey == (e.Field == KeyKW)
 //@     invariant forall j Int :: 0 <= j && j < i ==> isbytes(ret[j]) && textOf(ret[j]) == ite(e.Field == KeyKW, ck(chunk, j), cv(chunk, j))
 //
 //@ func (e *NotExpr) ExecuteBatch(chunk []KVPair, ctx *ExecuteCtx) (ret []any, err error) implements Expression.ExecuteBatch
-//@   props C03
+//@   props C03 C05
 //@   requires e.Right != nil
 //@   use forall i Int :: doc_not(e, chunk[i])
 //@   loop 0
+//@     invariant[C05] coh: cohChunk(ctx, chunk)
+//@     invariant[C05] added: ctx != nil && len(chunk) > 0 ==> (forall S B :: has(ctx.FieldChunkKeyCaches, S) ==> old(has(ctx.FieldChunkKeyCaches, S)) || fkOf(S) == ck(chunk, 0))
+//@     invariant[C05] colsok: ctx != nil && old(forall q B :: has(ctx.FieldChunkCaches, q) ==> len(ctx.FieldChunkCaches[q]) >= len(chunk)) ==> (forall q B :: has(ctx.FieldChunkCaches, q) ==> len(ctx.FieldChunkCaches[q]) >= len(chunk))
+//@     invariant[C05] addfresh: ctx != nil ==> (forall S B :: has(ctx.FieldChunkKeyCaches, S) ==> (old(has(ctx.FieldChunkKeyCaches, S)) && ctx.FieldChunkKeyCaches[S] == old(ctx.FieldChunkKeyCaches[S])) || fresh(ctx.FieldChunkKeyCaches[S]))
+//@     invariant[C05] apart: ctx != nil ==> (forall S B :: has(ctx.FieldChunkKeyCaches, S) ==> ptr(ctx.FieldChunkKeyCaches[S]) != ptr(right) || isnil(right))
 //@     invariant 0 <= i && i <= len(chunk) && len(right) == len(chunk) && (isnil(right) || fresh(right))
 //@     invariant forall j Int :: 0 <= j && j < len(chunk) ==> evalok(e.Right, ck(chunk, j), cv(chunk, j))
 //@     invariant forall j Int :: i <= j && j < len(chunk) ==> right[j] == evalv(e.Right, ck(chunk, j), cv(chunk, j))
@@ -68,21 +98,48 @@ package kvql
 // alias's values on the *current* chunk (A-CHUNKCACHE: entries are keyed by alias name and first
 // key of the chunk, and dropped by AdjustChunkCache when a scan batch has been filtered) is not
 // yet proved: the interface clause `same` is an assumption for this implementation.
+// The per-chunk cache: one entry per (alias name, first key of the chunk), stored under the text
+// name-key (ckOf). fkOf / nmOf read the two components back; that this is possible for alias names
+// (identifiers: no dash) is axiom ck_dec (A-ALIAS-NAMES).
+//@ define ckOf(q B, k B) B = cat(cat(q, "-"), k)
+//@ define wfCtxB(c *ExecuteCtx) Bool = c == nil || !c.EnableCache || (c.FieldChunkKeyCaches != nil && c.FieldChunkCaches != nil && c.FieldChunkKeyCaches != c.FieldChunkCaches)
+//@ specfun fkOf(B) B
+//@ specfun nmOf(B) B
+//@ specfun isAlias(B) Bool
+//@ axiom ck_dec(q B, k B): isAlias(q) ==> fkOf(ckOf(q, k)) == k && nmOf(ckOf(q, k)) == q
+// The per-chunk cache is coherent with a chunk when every entry filed under the chunk's first key
+// holds, row by row, the values of its alias on that chunk.
+//@ define cohChunk(ctx *ExecuteCtx, chunk []KVPair) Bool = ctx == nil || !ctx.EnableCache || len(chunk) == 0 || (forall S B :: has(ctx.FieldChunkKeyCaches, S) && fkOf(S) == ck(chunk, 0) ==> rowsOf(aliasOf(nmOf(S)), chunk, ctx.FieldChunkKeyCaches[S]))
 //@ func (c *ExecuteCtx) GetChunkFieldResult(name string, key []byte) (chunk []any, have bool)
 //@   props C03 C05
 //@   requires c != nil
 //@   assigns nothing
 //@   ensures[C03, C05] off: have ==> c.EnableCache
+//@   ensures[C05] entry: have == (c.EnableCache && has(c.FieldChunkKeyCaches, ckOf(val(name), val(key)))) && (have ==> chunk == c.FieldChunkKeyCaches[ckOf(val(name), val(key))])
 //@ func (c *ExecuteCtx) SetChunkFieldResult(name string, key []byte, chunk []any)
-//@   trusted thin contract (frame only: the slice is kept by the cache)
-//@   requires c != nil
+//@   props C05
+//@   requires c != nil && wfCtxB(c)
 //@   assigns mapof(c.FieldChunkKeyCaches), mapof(c.FieldChunkCaches)
+//@   ensures[C05] stored: c.EnableCache ==> has(c.FieldChunkKeyCaches, ckOf(val(name), val(key))) && (!old(has(c.FieldChunkKeyCaches, ckOf(val(name), val(key)))) ==> c.FieldChunkKeyCaches[ckOf(val(name), val(key))] == chunk)
+//@   ensures[C05] others: forall q B :: q != ckOf(val(name), val(key)) || !c.EnableCache || old(has(c.FieldChunkKeyCaches, q)) ==> has(c.FieldChunkKeyCaches, q) == old(has(c.FieldChunkKeyCaches, q)) && c.FieldChunkKeyCaches[q] == old(c.FieldChunkKeyCaches[q])
+//@ func (c *ExecuteCtx) AppendChunkFieldResult(name string, chunk []any)
+//@   trusted thin contract (frame: the final-result column of the alias grows; A-DISJOINT: its backing array is created here by make / append and shared with no per-chunk entry, so the in-place part of append writes nothing a per-chunk entry reads)
+//@   requires c != nil && (c.EnableCache ==> c.FieldChunkCaches != nil)
+//@   assigns mapof(c.FieldChunkCaches)
 //@ func (e *FieldReferenceExpr) ExecuteBatch(chunk []KVPair, ctx *ExecuteCtx) (ret []any, err error)
 //@   props C03 C05
 //@   requires e != nil && e.Name != nil && e.FieldExpr != nil && len(chunk) > 0
+//@   requires[C05] coh: cohChunk(ctx, chunk) && wfCtxB(ctx) && wfRefs()
+//@   use ck_dec(val(e.Name.Data), ck(chunk, 0))
+//@   use forall i Int :: ev_ref(e, ck(chunk, i), cv(chunk, i))
 //@   assigns ctx.Hit, mapof(ctx.FieldCaches), mapof(ctx.FieldChunkKeyCaches), mapof(ctx.FieldChunkCaches)
 //@   ensures[C03, C05] own: err == nil ==> isnil(ret) || fresh(ret)
 //@   ensures[C03, C05] miss: err == nil && (ctx == nil || !ctx.EnableCache) ==> rowsOf(e.FieldExpr, chunk, ret)
+//@   ensures[C05] same: err == nil ==> rowsOf(e, chunk, ret)
+//@   ensures[C05] coh: cohChunk(ctx, chunk)
+//@   ensures[C05] added: ctx != nil ==> (forall S B :: has(ctx.FieldChunkKeyCaches, S) ==> old(has(ctx.FieldChunkKeyCaches, S)) || fkOf(S) == ck(chunk, 0))
+//@   ensures[C05] apart: err == nil && ctx != nil ==> (forall S B :: has(ctx.FieldChunkKeyCaches, S) ==> ptr(ctx.FieldChunkKeyCaches[S]) != ptr(ret) || isnil(ret))
+//@   ensures[C05] addfresh: ctx != nil ==> (forall S B :: has(ctx.FieldChunkKeyCaches, S) ==> (old(has(ctx.FieldChunkKeyCaches, S)) && ctx.FieldChunkKeyCaches[S] == old(ctx.FieldChunkKeyCaches[S])) || fresh(ctx.FieldChunkKeyCaches[S]))
 //
 // Binary operators: the operands are evaluated for the whole chunk, then combined row by row.
 //@ define lokI(e *BinaryOpExpr, c []KVPair, i Int) Bool = evalok(e.Left, ck(c, i), cv(c, i))
@@ -92,7 +149,13 @@ package kvql
 //@ define bothOk(e *BinaryOpExpr, c []KVPair) Bool = forall j Int :: 0 <= j && j < len(c) ==> lokI(e, c, j) && rokI(e, c, j)
 //
 //@ func (e *BinaryOpExpr) execEqualBatch(chunk []KVPair, not bool, ctx *ExecuteCtx) (ret []any, err error)
-//@   props C03
+//@   props C03 C05
+//@   requires[C05] coh: cohChunk(ctx, chunk) && wfCtxB(ctx) && wfRefs()
+//@   ensures[C05] coh: cohChunk(ctx, chunk)
+//@   ensures[C05] added: ctx != nil && len(chunk) > 0 ==> (forall S B :: has(ctx.FieldChunkKeyCaches, S) ==> old(has(ctx.FieldChunkKeyCaches, S)) || fkOf(S) == ck(chunk, 0))
+//@   ensures[C05] colsok: ctx != nil && old(forall q B :: has(ctx.FieldChunkCaches, q) ==> len(ctx.FieldChunkCaches[q]) >= len(chunk)) ==> (forall q B :: has(ctx.FieldChunkCaches, q) ==> len(ctx.FieldChunkCaches[q]) >= len(chunk))
+//@   ensures[C05] apart: err == nil && ctx != nil ==> (forall S B :: has(ctx.FieldChunkKeyCaches, S) ==> ptr(ctx.FieldChunkKeyCaches[S]) != ptr(ret) || isnil(ret))
+//@   ensures[C05] addfresh: ctx != nil ==> (forall S B :: has(ctx.FieldChunkKeyCaches, S) ==> (old(has(ctx.FieldChunkKeyCaches, S)) && ctx.FieldChunkKeyCaches[S] == old(ctx.FieldChunkKeyCaches[S])) || fresh(ctx.FieldChunkKeyCaches[S]))
 //@   requires wfBin(e)
 //@   assigns ctx.Hit, mapof(ctx.FieldCaches), mapof(ctx.FieldChunkKeyCaches), mapof(ctx.FieldChunkCaches)
 //@   ensures[C03] same: err == nil ==> len(ret) == len(chunk) && (forall i Int :: 0 <= i && i < len(chunk) ==> lokI(e, chunk, i) && rokI(e, chunk, i) && eqKinds(lvI(e, chunk, i), rvI(e, chunk, i)) && ret[i] == ABool(ite(not, !eqVal(lvI(e, chunk, i), rvI(e, chunk, i)), eqVal(lvI(e, chunk, i), rvI(e, chunk, i)))))
@@ -100,6 +163,11 @@ package kvql
 //@   ensures[C03] twin: err == nil && ((e.Op == Eq && !not) || (e.Op == NotEq && not)) ==> rowsOf(e, chunk, ret)
 //@   ensures own: err == nil ==> isnil(ret) || fresh(ret)
 //@   loop 0
+//@     invariant[C05] coh: cohChunk(ctx, chunk)
+//@     invariant[C05] added: ctx != nil && len(chunk) > 0 ==> (forall S B :: has(ctx.FieldChunkKeyCaches, S) ==> old(has(ctx.FieldChunkKeyCaches, S)) || fkOf(S) == ck(chunk, 0))
+//@     invariant[C05] colsok: ctx != nil && old(forall q B :: has(ctx.FieldChunkCaches, q) ==> len(ctx.FieldChunkCaches[q]) >= len(chunk)) ==> (forall q B :: has(ctx.FieldChunkCaches, q) ==> len(ctx.FieldChunkCaches[q]) >= len(chunk))
+//@     invariant[C05] addfresh: ctx != nil ==> (forall S B :: has(ctx.FieldChunkKeyCaches, S) ==> (old(has(ctx.FieldChunkKeyCaches, S)) && ctx.FieldChunkKeyCaches[S] == old(ctx.FieldChunkKeyCaches[S])) || fresh(ctx.FieldChunkKeyCaches[S]))
+//@     invariant[C05] apart: ctx != nil ==> (forall S B :: has(ctx.FieldChunkKeyCaches, S) ==> ptr(ctx.FieldChunkKeyCaches[S]) != ptr(rleft) || isnil(rleft))
 //@     invariant 0 <= i && i <= len(chunk) && len(rleft) == len(chunk) && len(rright) == len(chunk) && fresh(rleft) && (isnil(rright) || fresh(rright)) && ptr(rleft) != ptr(rright) && bothOk(e, chunk)
 //@     invariant (isStr || isInt || isBool) && !(isStr && isInt) && !(isStr && isBool) && !(isInt && isBool)
 //@     invariant forall j Int :: 0 <= j && j < len(chunk) ==> rright[j] == rvI(e, chunk, j)
@@ -108,7 +176,13 @@ package kvql
 //@     invariant forall j Int :: 0 <= j && j < i ==> ite(isStr, isText(lvI(e, chunk, j)), ite(isInt, isInt(lvI(e, chunk, j)), isbool(lvI(e, chunk, j))))
 //
 //@ func (e *BinaryOpExpr) execPrefixMatchBatch(chunk []KVPair, ctx *ExecuteCtx) (ret []any, err error)
-//@   props C03
+//@   props C03 C05
+//@   requires[C05] coh: cohChunk(ctx, chunk) && wfCtxB(ctx) && wfRefs()
+//@   ensures[C05] coh: cohChunk(ctx, chunk)
+//@   ensures[C05] added: ctx != nil && len(chunk) > 0 ==> (forall S B :: has(ctx.FieldChunkKeyCaches, S) ==> old(has(ctx.FieldChunkKeyCaches, S)) || fkOf(S) == ck(chunk, 0))
+//@   ensures[C05] colsok: ctx != nil && old(forall q B :: has(ctx.FieldChunkCaches, q) ==> len(ctx.FieldChunkCaches[q]) >= len(chunk)) ==> (forall q B :: has(ctx.FieldChunkCaches, q) ==> len(ctx.FieldChunkCaches[q]) >= len(chunk))
+//@   ensures[C05] apart: err == nil && ctx != nil ==> (forall S B :: has(ctx.FieldChunkKeyCaches, S) ==> ptr(ctx.FieldChunkKeyCaches[S]) != ptr(ret) || isnil(ret))
+//@   ensures[C05] addfresh: ctx != nil ==> (forall S B :: has(ctx.FieldChunkKeyCaches, S) ==> (old(has(ctx.FieldChunkKeyCaches, S)) && ctx.FieldChunkKeyCaches[S] == old(ctx.FieldChunkKeyCaches[S])) || fresh(ctx.FieldChunkKeyCaches[S]))
 //@   requires wfBin(e)
 //@   assigns ctx.Hit, mapof(ctx.FieldCaches), mapof(ctx.FieldChunkKeyCaches), mapof(ctx.FieldChunkCaches)
 //@   ensures[C03] same: err == nil ==> len(ret) == len(chunk) && (forall i Int :: 0 <= i && i < len(chunk) ==> lokI(e, chunk, i) && rokI(e, chunk, i) && isText(lvI(e, chunk, i)) && isText(rvI(e, chunk, i)) && ret[i] == ABool(pre(textOf(rvI(e, chunk, i)), textOf(lvI(e, chunk, i)))))
@@ -116,6 +190,11 @@ package kvql
 //@   ensures[C03] twin: err == nil && (e.Op == PrefixMatch) ==> rowsOf(e, chunk, ret)
 //@   ensures own: err == nil ==> isnil(ret) || fresh(ret)
 //@   loop 0
+//@     invariant[C05] coh: cohChunk(ctx, chunk)
+//@     invariant[C05] added: ctx != nil && len(chunk) > 0 ==> (forall S B :: has(ctx.FieldChunkKeyCaches, S) ==> old(has(ctx.FieldChunkKeyCaches, S)) || fkOf(S) == ck(chunk, 0))
+//@     invariant[C05] colsok: ctx != nil && old(forall q B :: has(ctx.FieldChunkCaches, q) ==> len(ctx.FieldChunkCaches[q]) >= len(chunk)) ==> (forall q B :: has(ctx.FieldChunkCaches, q) ==> len(ctx.FieldChunkCaches[q]) >= len(chunk))
+//@     invariant[C05] addfresh: ctx != nil ==> (forall S B :: has(ctx.FieldChunkKeyCaches, S) ==> (old(has(ctx.FieldChunkKeyCaches, S)) && ctx.FieldChunkKeyCaches[S] == old(ctx.FieldChunkKeyCaches[S])) || fresh(ctx.FieldChunkKeyCaches[S]))
+//@     invariant[C05] apart: ctx != nil ==> (forall S B :: has(ctx.FieldChunkKeyCaches, S) ==> ptr(ctx.FieldChunkKeyCaches[S]) != ptr(rleft) || isnil(rleft))
 //@     invariant 0 <= i && i <= len(chunk) && len(rleft) == len(chunk) && len(rright) == len(chunk) && (isnil(rleft) || fresh(rleft)) && (isnil(rright) || fresh(rright)) && (len(chunk) > 0 ==> ptr(rleft) != ptr(rright)) && bothOk(e, chunk)
 //@     invariant forall j Int :: 0 <= j && j < len(chunk) ==> rright[j] == rvI(e, chunk, j)
 //@     invariant forall j Int :: i <= j && j < len(chunk) ==> rleft[j] == lvI(e, chunk, j)
@@ -124,7 +203,13 @@ package kvql
 // The vector form of & and | evaluates both operands for the whole chunk (no short cut): it
 // completes only if the right operand evaluates on every row, and then agrees with the row form.
 //@ func (e *BinaryOpExpr) execAndOrBatch(chunk []KVPair, and bool, ctx *ExecuteCtx) (ret []any, err error)
-//@   props C03
+//@   props C03 C05
+//@   requires[C05] coh: cohChunk(ctx, chunk) && wfCtxB(ctx) && wfRefs()
+//@   ensures[C05] coh: cohChunk(ctx, chunk)
+//@   ensures[C05] added: ctx != nil && len(chunk) > 0 ==> (forall S B :: has(ctx.FieldChunkKeyCaches, S) ==> old(has(ctx.FieldChunkKeyCaches, S)) || fkOf(S) == ck(chunk, 0))
+//@   ensures[C05] colsok: ctx != nil && old(forall q B :: has(ctx.FieldChunkCaches, q) ==> len(ctx.FieldChunkCaches[q]) >= len(chunk)) ==> (forall q B :: has(ctx.FieldChunkCaches, q) ==> len(ctx.FieldChunkCaches[q]) >= len(chunk))
+//@   ensures[C05] apart: err == nil && ctx != nil ==> (forall S B :: has(ctx.FieldChunkKeyCaches, S) ==> ptr(ctx.FieldChunkKeyCaches[S]) != ptr(ret) || isnil(ret))
+//@   ensures[C05] addfresh: ctx != nil ==> (forall S B :: has(ctx.FieldChunkKeyCaches, S) ==> (old(has(ctx.FieldChunkKeyCaches, S)) && ctx.FieldChunkKeyCaches[S] == old(ctx.FieldChunkKeyCaches[S])) || fresh(ctx.FieldChunkKeyCaches[S]))
 //@   requires wfBin(e)
 //@   assigns ctx.Hit, mapof(ctx.FieldCaches), mapof(ctx.FieldChunkKeyCaches), mapof(ctx.FieldChunkCaches)
 //@   ensures[C03] same: err == nil ==> len(ret) == len(chunk) && (forall i Int :: 0 <= i && i < len(chunk) ==> lokI(e, chunk, i) && rokI(e, chunk, i) && isbool(lvI(e, chunk, i)) && isbool(rvI(e, chunk, i)) && ret[i] == ABool(ite(and, bval(lvI(e, chunk, i)) && bval(rvI(e, chunk, i)), bval(lvI(e, chunk, i)) || bval(rvI(e, chunk, i)))))
@@ -132,13 +217,24 @@ package kvql
 //@   ensures[C03] twin: err == nil && (((e.Op == And || e.Op == KWAnd) && and) || ((e.Op == Or || e.Op == KWOr) && !and)) ==> rowsOf(e, chunk, ret)
 //@   ensures own: err == nil ==> isnil(ret) || fresh(ret)
 //@   loop 0
+//@     invariant[C05] coh: cohChunk(ctx, chunk)
+//@     invariant[C05] added: ctx != nil && len(chunk) > 0 ==> (forall S B :: has(ctx.FieldChunkKeyCaches, S) ==> old(has(ctx.FieldChunkKeyCaches, S)) || fkOf(S) == ck(chunk, 0))
+//@     invariant[C05] colsok: ctx != nil && old(forall q B :: has(ctx.FieldChunkCaches, q) ==> len(ctx.FieldChunkCaches[q]) >= len(chunk)) ==> (forall q B :: has(ctx.FieldChunkCaches, q) ==> len(ctx.FieldChunkCaches[q]) >= len(chunk))
+//@     invariant[C05] addfresh: ctx != nil ==> (forall S B :: has(ctx.FieldChunkKeyCaches, S) ==> (old(has(ctx.FieldChunkKeyCaches, S)) && ctx.FieldChunkKeyCaches[S] == old(ctx.FieldChunkKeyCaches[S])) || fresh(ctx.FieldChunkKeyCaches[S]))
+//@     invariant[C05] apart: ctx != nil ==> (forall S B :: has(ctx.FieldChunkKeyCaches, S) ==> ptr(ctx.FieldChunkKeyCaches[S]) != ptr(rleft) || isnil(rleft))
 //@     invariant 0 <= i && i <= len(chunk) && len(rleft) == len(chunk) && len(rright) == len(chunk) && (isnil(rleft) || fresh(rleft)) && (isnil(rright) || fresh(rright)) && (len(chunk) > 0 ==> ptr(rleft) != ptr(rright)) && bothOk(e, chunk)
 //@     invariant forall j Int :: 0 <= j && j < len(chunk) ==> rright[j] == rvI(e, chunk, j)
 //@     invariant forall j Int :: i <= j && j < len(chunk) ==> rleft[j] == lvI(e, chunk, j)
 //@     invariant forall j Int :: 0 <= j && j < i ==> isbool(lvI(e, chunk, j)) && isbool(rvI(e, chunk, j)) && rleft[j] == ABool(ite(and, bval(lvI(e, chunk, j)) && bval(rvI(e, chunk, j)), bval(lvI(e, chunk, j)) || bval(rvI(e, chunk, j))))
 //
 //@ func (e *BinaryOpExpr) execMathBatch(chunk []KVPair, op byte, ctx *ExecuteCtx) (ret []any, err error)
-//@   props C03
+//@   props C03 C05
+//@   requires[C05] coh: cohChunk(ctx, chunk) && wfCtxB(ctx) && wfRefs()
+//@   ensures[C05] coh: cohChunk(ctx, chunk)
+//@   ensures[C05] added: ctx != nil && len(chunk) > 0 ==> (forall S B :: has(ctx.FieldChunkKeyCaches, S) ==> old(has(ctx.FieldChunkKeyCaches, S)) || fkOf(S) == ck(chunk, 0))
+//@   ensures[C05] colsok: ctx != nil && old(forall q B :: has(ctx.FieldChunkCaches, q) ==> len(ctx.FieldChunkCaches[q]) >= len(chunk)) ==> (forall q B :: has(ctx.FieldChunkCaches, q) ==> len(ctx.FieldChunkCaches[q]) >= len(chunk))
+//@   ensures[C05] apart: err == nil && ctx != nil ==> (forall S B :: has(ctx.FieldChunkKeyCaches, S) ==> ptr(ctx.FieldChunkKeyCaches[S]) != ptr(ret) || isnil(ret))
+//@   ensures[C05] addfresh: ctx != nil ==> (forall S B :: has(ctx.FieldChunkKeyCaches, S) ==> (old(has(ctx.FieldChunkKeyCaches, S)) && ctx.FieldChunkKeyCaches[S] == old(ctx.FieldChunkKeyCaches[S])) || fresh(ctx.FieldChunkKeyCaches[S]))
 //@   requires wfBin(e) && mathOp(op)
 //@   assigns ctx.Hit, mapof(ctx.FieldCaches), mapof(ctx.FieldChunkKeyCaches), mapof(ctx.FieldChunkCaches)
 //@   ensures[C03] same: err == nil ==> len(ret) == len(chunk) && (forall i Int :: 0 <= i && i < len(chunk) ==> lokI(e, chunk, i) && rokI(e, chunk, i) && isNum(lvI(e, chunk, i)) && isNum(rvI(e, chunk, i)) && !divByZero(op, rvI(e, chunk, i)) && ret[i] == ite(isInt(lvI(e, chunk, i)) && isInt(rvI(e, chunk, i)), AInt(intOp(op, intof(lvI(e, chunk, i)), intof(rvI(e, chunk, i)))), AFlt(fltOp(op, numOf(lvI(e, chunk, i)), numOf(rvI(e, chunk, i))))))
@@ -146,13 +242,24 @@ package kvql
 //@   ensures[C03] twin: err == nil && ((e.Op == Sub || e.Op == Mul || e.Op == Div || (e.Op == Add && rtype(e.Left) != TSTR)) && op == opChar(e.Op)) ==> rowsOf(e, chunk, ret)
 //@   ensures own: err == nil ==> isnil(ret) || fresh(ret)
 //@   loop 0
+//@     invariant[C05] coh: cohChunk(ctx, chunk)
+//@     invariant[C05] added: ctx != nil && len(chunk) > 0 ==> (forall S B :: has(ctx.FieldChunkKeyCaches, S) ==> old(has(ctx.FieldChunkKeyCaches, S)) || fkOf(S) == ck(chunk, 0))
+//@     invariant[C05] colsok: ctx != nil && old(forall q B :: has(ctx.FieldChunkCaches, q) ==> len(ctx.FieldChunkCaches[q]) >= len(chunk)) ==> (forall q B :: has(ctx.FieldChunkCaches, q) ==> len(ctx.FieldChunkCaches[q]) >= len(chunk))
+//@     invariant[C05] addfresh: ctx != nil ==> (forall S B :: has(ctx.FieldChunkKeyCaches, S) ==> (old(has(ctx.FieldChunkKeyCaches, S)) && ctx.FieldChunkKeyCaches[S] == old(ctx.FieldChunkKeyCaches[S])) || fresh(ctx.FieldChunkKeyCaches[S]))
+//@     invariant[C05] apart: ctx != nil ==> (forall S B :: has(ctx.FieldChunkKeyCaches, S) ==> ptr(ctx.FieldChunkKeyCaches[S]) != ptr(rleft) || isnil(rleft))
 //@     invariant 0 <= i && i <= len(chunk) && len(rleft) == len(chunk) && len(rright) == len(chunk) && (isnil(rleft) || fresh(rleft)) && (isnil(rright) || fresh(rright)) && (len(chunk) > 0 ==> ptr(rleft) != ptr(rright)) && bothOk(e, chunk)
 //@     invariant forall j Int :: 0 <= j && j < len(chunk) ==> rright[j] == rvI(e, chunk, j)
 //@     invariant forall j Int :: i <= j && j < len(chunk) ==> rleft[j] == lvI(e, chunk, j)
 //@     invariant forall j Int :: 0 <= j && j < i ==> isNum(lvI(e, chunk, j)) && isNum(rvI(e, chunk, j)) && !divByZero(op, rvI(e, chunk, j)) && rleft[j] == ite(isInt(lvI(e, chunk, j)) && isInt(rvI(e, chunk, j)), AInt(intOp(op, intof(lvI(e, chunk, j)), intof(rvI(e, chunk, j)))), AFlt(fltOp(op, numOf(lvI(e, chunk, j)), numOf(rvI(e, chunk, j)))))
 //
 //@ func (e *BinaryOpExpr) execNumberCompareBatch(chunk []KVPair, op string, ctx *ExecuteCtx) (ret []any, err error)
-//@   props C03
+//@   props C03 C05
+//@   requires[C05] coh: cohChunk(ctx, chunk) && wfCtxB(ctx) && wfRefs()
+//@   ensures[C05] coh: cohChunk(ctx, chunk)
+//@   ensures[C05] added: ctx != nil && len(chunk) > 0 ==> (forall S B :: has(ctx.FieldChunkKeyCaches, S) ==> old(has(ctx.FieldChunkKeyCaches, S)) || fkOf(S) == ck(chunk, 0))
+//@   ensures[C05] colsok: ctx != nil && old(forall q B :: has(ctx.FieldChunkCaches, q) ==> len(ctx.FieldChunkCaches[q]) >= len(chunk)) ==> (forall q B :: has(ctx.FieldChunkCaches, q) ==> len(ctx.FieldChunkCaches[q]) >= len(chunk))
+//@   ensures[C05] apart: err == nil && ctx != nil ==> (forall S B :: has(ctx.FieldChunkKeyCaches, S) ==> ptr(ctx.FieldChunkKeyCaches[S]) != ptr(ret) || isnil(ret))
+//@   ensures[C05] addfresh: ctx != nil ==> (forall S B :: has(ctx.FieldChunkKeyCaches, S) ==> (old(has(ctx.FieldChunkKeyCaches, S)) && ctx.FieldChunkKeyCaches[S] == old(ctx.FieldChunkKeyCaches[S])) || fresh(ctx.FieldChunkKeyCaches[S]))
 //@   requires wfBin(e) && relOp(val(op))
 //@   assigns ctx.Hit, mapof(ctx.FieldCaches), mapof(ctx.FieldChunkKeyCaches), mapof(ctx.FieldChunkCaches)
 //@   ensures[C03] same: err == nil ==> len(ret) == len(chunk) && (forall i Int :: 0 <= i && i < len(chunk) ==> lokI(e, chunk, i) && rokI(e, chunk, i) && isNum(lvI(e, chunk, i)) && isNum(rvI(e, chunk, i)) && ret[i] == ABool(ite(isInt(lvI(e, chunk, i)) && isInt(rvI(e, chunk, i)), intHolds(val(op), intof(lvI(e, chunk, i)), intof(rvI(e, chunk, i))), fltHolds(val(op), numOf(lvI(e, chunk, i)), numOf(rvI(e, chunk, i))))))
@@ -160,13 +267,24 @@ package kvql
 //@   ensures[C03] twin: err == nil && (isOrderOp(e.Op) && rtype(e.Left) != TSTR && val(op) == opSym(e.Op)) ==> rowsOf(e, chunk, ret)
 //@   ensures own: err == nil ==> isnil(ret) || fresh(ret)
 //@   loop 0
+//@     invariant[C05] coh: cohChunk(ctx, chunk)
+//@     invariant[C05] added: ctx != nil && len(chunk) > 0 ==> (forall S B :: has(ctx.FieldChunkKeyCaches, S) ==> old(has(ctx.FieldChunkKeyCaches, S)) || fkOf(S) == ck(chunk, 0))
+//@     invariant[C05] colsok: ctx != nil && old(forall q B :: has(ctx.FieldChunkCaches, q) ==> len(ctx.FieldChunkCaches[q]) >= len(chunk)) ==> (forall q B :: has(ctx.FieldChunkCaches, q) ==> len(ctx.FieldChunkCaches[q]) >= len(chunk))
+//@     invariant[C05] addfresh: ctx != nil ==> (forall S B :: has(ctx.FieldChunkKeyCaches, S) ==> (old(has(ctx.FieldChunkKeyCaches, S)) && ctx.FieldChunkKeyCaches[S] == old(ctx.FieldChunkKeyCaches[S])) || fresh(ctx.FieldChunkKeyCaches[S]))
+//@     invariant[C05] apart: ctx != nil ==> (forall S B :: has(ctx.FieldChunkKeyCaches, S) ==> ptr(ctx.FieldChunkKeyCaches[S]) != ptr(rleft) || isnil(rleft))
 //@     invariant 0 <= i && i <= len(chunk) && len(rleft) == len(chunk) && len(rright) == len(chunk) && (isnil(rleft) || fresh(rleft)) && (isnil(rright) || fresh(rright)) && (len(chunk) > 0 ==> ptr(rleft) != ptr(rright)) && bothOk(e, chunk)
 //@     invariant forall j Int :: 0 <= j && j < len(chunk) ==> rright[j] == rvI(e, chunk, j)
 //@     invariant forall j Int :: i <= j && j < len(chunk) ==> rleft[j] == lvI(e, chunk, j)
 //@     invariant forall j Int :: 0 <= j && j < i ==> isNum(lvI(e, chunk, j)) && isNum(rvI(e, chunk, j)) && rleft[j] == ABool(ite(isInt(lvI(e, chunk, j)) && isInt(rvI(e, chunk, j)), intHolds(val(op), intof(lvI(e, chunk, j)), intof(rvI(e, chunk, j))), fltHolds(val(op), numOf(lvI(e, chunk, j)), numOf(rvI(e, chunk, j)))))
 //
 //@ func (e *BinaryOpExpr) execStringCompareBatch(chunk []KVPair, op string, ctx *ExecuteCtx) (ret []any, err error)
-//@   props C03
+//@   props C03 C05
+//@   requires[C05] coh: cohChunk(ctx, chunk) && wfCtxB(ctx) && wfRefs()
+//@   ensures[C05] coh: cohChunk(ctx, chunk)
+//@   ensures[C05] added: ctx != nil && len(chunk) > 0 ==> (forall S B :: has(ctx.FieldChunkKeyCaches, S) ==> old(has(ctx.FieldChunkKeyCaches, S)) || fkOf(S) == ck(chunk, 0))
+//@   ensures[C05] colsok: ctx != nil && old(forall q B :: has(ctx.FieldChunkCaches, q) ==> len(ctx.FieldChunkCaches[q]) >= len(chunk)) ==> (forall q B :: has(ctx.FieldChunkCaches, q) ==> len(ctx.FieldChunkCaches[q]) >= len(chunk))
+//@   ensures[C05] apart: err == nil && ctx != nil ==> (forall S B :: has(ctx.FieldChunkKeyCaches, S) ==> ptr(ctx.FieldChunkKeyCaches[S]) != ptr(ret) || isnil(ret))
+//@   ensures[C05] addfresh: ctx != nil ==> (forall S B :: has(ctx.FieldChunkKeyCaches, S) ==> (old(has(ctx.FieldChunkKeyCaches, S)) && ctx.FieldChunkKeyCaches[S] == old(ctx.FieldChunkKeyCaches[S])) || fresh(ctx.FieldChunkKeyCaches[S]))
 //@   requires wfBin(e) && relOp(val(op))
 //@   assigns ctx.Hit, mapof(ctx.FieldCaches), mapof(ctx.FieldChunkKeyCaches), mapof(ctx.FieldChunkCaches)
 //@   ensures[C03] same: err == nil ==> len(ret) == len(chunk) && (forall i Int :: 0 <= i && i < len(chunk) ==> lokI(e, chunk, i) && rokI(e, chunk, i) && isText(lvI(e, chunk, i)) && isText(rvI(e, chunk, i)) && ret[i] == ABool(cmpHolds(val(op), cmp(textOf(lvI(e, chunk, i)), textOf(rvI(e, chunk, i))))))
@@ -174,6 +292,11 @@ package kvql
 //@   ensures[C03] twin: err == nil && (isOrderOp(e.Op) && rtype(e.Left) == TSTR && val(op) == opSym(e.Op)) ==> rowsOf(e, chunk, ret)
 //@   ensures own: err == nil ==> isnil(ret) || fresh(ret)
 //@   loop 0
+//@     invariant[C05] coh: cohChunk(ctx, chunk)
+//@     invariant[C05] added: ctx != nil && len(chunk) > 0 ==> (forall S B :: has(ctx.FieldChunkKeyCaches, S) ==> old(has(ctx.FieldChunkKeyCaches, S)) || fkOf(S) == ck(chunk, 0))
+//@     invariant[C05] colsok: ctx != nil && old(forall q B :: has(ctx.FieldChunkCaches, q) ==> len(ctx.FieldChunkCaches[q]) >= len(chunk)) ==> (forall q B :: has(ctx.FieldChunkCaches, q) ==> len(ctx.FieldChunkCaches[q]) >= len(chunk))
+//@     invariant[C05] addfresh: ctx != nil ==> (forall S B :: has(ctx.FieldChunkKeyCaches, S) ==> (old(has(ctx.FieldChunkKeyCaches, S)) && ctx.FieldChunkKeyCaches[S] == old(ctx.FieldChunkKeyCaches[S])) || fresh(ctx.FieldChunkKeyCaches[S]))
+//@     invariant[C05] apart: ctx != nil ==> (forall S B :: has(ctx.FieldChunkKeyCaches, S) ==> ptr(ctx.FieldChunkKeyCaches[S]) != ptr(rleft) || isnil(rleft))
 //@     invariant 0 <= i && i <= len(chunk) && len(rleft) == len(chunk) && len(rright) == len(chunk) && (isnil(rleft) || fresh(rleft)) && (isnil(rright) || fresh(rright)) && (len(chunk) > 0 ==> ptr(rleft) != ptr(rright)) && bothOk(e, chunk)
 //@     invariant forall j Int :: 0 <= j && j < len(chunk) ==> rright[j] == rvI(e, chunk, j)
 //@     invariant forall j Int :: i <= j && j < len(chunk) ==> rleft[j] == lvI(e, chunk, j)
@@ -181,7 +304,13 @@ package kvql
 //
 // Not yet verified (thin assumed contracts: frame and ownership only).
 //@ func (e *BinaryOpExpr) execRegexpMatchBatch(chunk []KVPair, ctx *ExecuteCtx) (ret []any, err error)
-//@   props C03
+//@   props C03 C05
+//@   requires[C05] coh: cohChunk(ctx, chunk) && wfCtxB(ctx) && wfRefs()
+//@   ensures[C05] coh: cohChunk(ctx, chunk)
+//@   ensures[C05] added: ctx != nil && len(chunk) > 0 ==> (forall S B :: has(ctx.FieldChunkKeyCaches, S) ==> old(has(ctx.FieldChunkKeyCaches, S)) || fkOf(S) == ck(chunk, 0))
+//@   ensures[C05] colsok: ctx != nil && old(forall q B :: has(ctx.FieldChunkCaches, q) ==> len(ctx.FieldChunkCaches[q]) >= len(chunk)) ==> (forall q B :: has(ctx.FieldChunkCaches, q) ==> len(ctx.FieldChunkCaches[q]) >= len(chunk))
+//@   ensures[C05] apart: err == nil && ctx != nil ==> (forall S B :: has(ctx.FieldChunkKeyCaches, S) ==> ptr(ctx.FieldChunkKeyCaches[S]) != ptr(ret) || isnil(ret))
+//@   ensures[C05] addfresh: ctx != nil ==> (forall S B :: has(ctx.FieldChunkKeyCaches, S) ==> (old(has(ctx.FieldChunkKeyCaches, S)) && ctx.FieldChunkKeyCaches[S] == old(ctx.FieldChunkKeyCaches[S])) || fresh(ctx.FieldChunkKeyCaches[S]))
 //@   requires wfBin(e)
 //@   assigns ctx.Hit, mapof(ctx.FieldCaches), mapof(ctx.FieldChunkKeyCaches), mapof(ctx.FieldChunkCaches)
 //@   ensures[C03] same: err == nil ==> len(ret) == len(chunk) && (forall i Int :: 0 <= i && i < len(chunk) ==> lokI(e, chunk, i) && rokI(e, chunk, i) && isText(lvI(e, chunk, i)) && isText(rvI(e, chunk, i)) && reOk(textOf(rvI(e, chunk, i))) && ret[i] == ABool(reMatch(textOf(rvI(e, chunk, i)), textOf(lvI(e, chunk, i)))))
@@ -189,6 +318,11 @@ package kvql
 //@   ensures[C03] twin: err == nil && (e.Op == RegExpMatch) ==> rowsOf(e, chunk, ret)
 //@   ensures own: err == nil ==> isnil(ret) || fresh(ret)
 //@   loop 0
+//@     invariant[C05] coh: cohChunk(ctx, chunk)
+//@     invariant[C05] added: ctx != nil && len(chunk) > 0 ==> (forall S B :: has(ctx.FieldChunkKeyCaches, S) ==> old(has(ctx.FieldChunkKeyCaches, S)) || fkOf(S) == ck(chunk, 0))
+//@     invariant[C05] colsok: ctx != nil && old(forall q B :: has(ctx.FieldChunkCaches, q) ==> len(ctx.FieldChunkCaches[q]) >= len(chunk)) ==> (forall q B :: has(ctx.FieldChunkCaches, q) ==> len(ctx.FieldChunkCaches[q]) >= len(chunk))
+//@     invariant[C05] addfresh: ctx != nil ==> (forall S B :: has(ctx.FieldChunkKeyCaches, S) ==> (old(has(ctx.FieldChunkKeyCaches, S)) && ctx.FieldChunkKeyCaches[S] == old(ctx.FieldChunkKeyCaches[S])) || fresh(ctx.FieldChunkKeyCaches[S]))
+//@     invariant[C05] apart: ctx != nil ==> (forall S B :: has(ctx.FieldChunkKeyCaches, S) ==> ptr(ctx.FieldChunkKeyCaches[S]) != ptr(rleft) || isnil(rleft))
 //@     invariant 0 <= i && i <= len(chunk) && len(rleft) == len(chunk) && len(rright) == len(chunk) && (isnil(rleft) || fresh(rleft)) && (isnil(rright) || fresh(rright)) && (len(chunk) > 0 ==> ptr(rleft) != ptr(rright)) && bothOk(e, chunk) && fresh(regexpCache)
 //@     invariant cache: forall q B :: has(regexpCache, q) ==> regexpCache[q] != nil && repat(regexpCache[q]) == q && reOk(q)
 //@     invariant forall j Int :: 0 <= j && j < len(chunk) ==> rright[j] == rvI(e, chunk, j)
@@ -199,24 +333,45 @@ package kvql
 // panic freedom only.
 //@ define inTextNC(e *BinaryOpExpr, chunk []KVPair, i Int, n Int) Bool = exists j Int :: 0 <= j && j < n && textOf(evalv(as(e.Right, *ListExpr).List[j], ck(chunk, i), cv(chunk, i))) == textOf(lvI(e, chunk, i))
 //@ func (e *BinaryOpExpr) execInBatch(chunk []KVPair, number bool, ctx *ExecuteCtx) (ret []any, err error)
-//@   props C03
+//@   props C03 C05
+//@   requires[C05] coh: cohChunk(ctx, chunk) && wfCtxB(ctx) && wfRefs()
+//@   ensures[C05] coh: cohChunk(ctx, chunk)
+//@   ensures[C05] added: ctx != nil && len(chunk) > 0 ==> (forall S B :: has(ctx.FieldChunkKeyCaches, S) ==> old(has(ctx.FieldChunkKeyCaches, S)) || fkOf(S) == ck(chunk, 0))
+//@   ensures[C05] colsok: ctx != nil && old(forall q B :: has(ctx.FieldChunkCaches, q) ==> len(ctx.FieldChunkCaches[q]) >= len(chunk)) ==> (forall q B :: has(ctx.FieldChunkCaches, q) ==> len(ctx.FieldChunkCaches[q]) >= len(chunk))
+//@   ensures[C05] apart: err == nil && ctx != nil ==> (forall S B :: has(ctx.FieldChunkKeyCaches, S) ==> ptr(ctx.FieldChunkKeyCaches[S]) != ptr(ret) || isnil(ret))
+//@   ensures[C05] addfresh: ctx != nil ==> (forall S B :: has(ctx.FieldChunkKeyCaches, S) ==> (old(has(ctx.FieldChunkKeyCaches, S)) && ctx.FieldChunkKeyCaches[S] == old(ctx.FieldChunkKeyCaches[S])) || fresh(ctx.FieldChunkKeyCaches[S]))
 //@   requires wfBetween(e)
 //@   assigns ctx.Hit, mapof(ctx.FieldCaches), mapof(ctx.FieldChunkKeyCaches), mapof(ctx.FieldChunkCaches)
 //@   ensures own: err == nil ==> isnil(ret) || fresh(ret)
 //@   ensures[C03] shape: err == nil ==> len(ret) == len(chunk) && (forall i Int :: 0 <= i && i < len(chunk) ==> lokI(e, chunk, i))
 //@   ensures[C03] member: err == nil && is(e.Right, *ListExpr) && !number ==> (forall i Int :: 0 <= i && i < len(chunk) ==> ret[i] == ABool(inTextNC(e, chunk, i, nitems(e))))
 //@   loop 0 (expr)
+//@     invariant[C05] coh: cohChunk(ctx, chunk)
+//@     invariant[C05] added: ctx != nil && len(chunk) > 0 ==> (forall S B :: has(ctx.FieldChunkKeyCaches, S) ==> old(has(ctx.FieldChunkKeyCaches, S)) || fkOf(S) == ck(chunk, 0))
+//@     invariant[C05] colsok: ctx != nil && old(forall q B :: has(ctx.FieldChunkCaches, q) ==> len(ctx.FieldChunkCaches[q]) >= len(chunk)) ==> (forall q B :: has(ctx.FieldChunkCaches, q) ==> len(ctx.FieldChunkCaches[q]) >= len(chunk))
+//@     invariant[C05] addfresh: ctx != nil ==> (forall S B :: has(ctx.FieldChunkKeyCaches, S) ==> (old(has(ctx.FieldChunkKeyCaches, S)) && ctx.FieldChunkKeyCaches[S] == old(ctx.FieldChunkKeyCaches[S])) || fresh(ctx.FieldChunkKeyCaches[S]))
+//@     invariant[C05] apart: ctx != nil ==> (forall S B :: has(ctx.FieldChunkKeyCaches, S) ==> ptr(ctx.FieldChunkKeyCaches[S]) != ptr(rleft) || isnil(rleft))
 //@     invariant len(rleft) == len(chunk) && (isnil(rleft) || fresh(rleft)) && len(listValues) == nitems(e) && fresh(listValues) && rlist == e.Right && is(e.Right, *ListExpr)
 //@     invariant forall q Int :: 0 <= q && q < len(chunk) ==> lokI(e, chunk, q) && rleft[q] == lvI(e, chunk, q)
 //@     invariant forall l2 Int :: 0 <= l2 && l2 <= rangeindex ==> rowsOf(as(e.Right, *ListExpr).List[l2], chunk, listValues[l2]) && (isnil(listValues[l2]) || fresh(listValues[l2])) && (len(chunk) > 0 ==> ptr(listValues[l2]) != ptr(rleft))
 //@     use rangeindex + 1
 //@   loop 1
+//@     invariant[C05] coh: cohChunk(ctx, chunk)
+//@     invariant[C05] added: ctx != nil && len(chunk) > 0 ==> (forall S B :: has(ctx.FieldChunkKeyCaches, S) ==> old(has(ctx.FieldChunkKeyCaches, S)) || fkOf(S) == ck(chunk, 0))
+//@     invariant[C05] colsok: ctx != nil && old(forall q B :: has(ctx.FieldChunkCaches, q) ==> len(ctx.FieldChunkCaches[q]) >= len(chunk)) ==> (forall q B :: has(ctx.FieldChunkCaches, q) ==> len(ctx.FieldChunkCaches[q]) >= len(chunk))
+//@     invariant[C05] addfresh: ctx != nil ==> (forall S B :: has(ctx.FieldChunkKeyCaches, S) ==> (old(has(ctx.FieldChunkKeyCaches, S)) && ctx.FieldChunkKeyCaches[S] == old(ctx.FieldChunkKeyCaches[S])) || fresh(ctx.FieldChunkKeyCaches[S]))
+//@     invariant[C05] apart: ctx != nil ==> (forall S B :: has(ctx.FieldChunkKeyCaches, S) ==> ptr(ctx.FieldChunkKeyCaches[S]) != ptr(rleft) || isnil(rleft))
 //@     invariant 0 <= i && i <= len(chunk) && len(rleft) == len(chunk) && (isnil(rleft) || fresh(rleft)) && len(listValues) == nitems(e) && fresh(listValues) && is(e.Right, *ListExpr)
 //@     invariant forall q Int :: 0 <= q && q < len(chunk) ==> lokI(e, chunk, q)
 //@     invariant forall q Int :: i <= q && q < len(chunk) ==> rleft[q] == lvI(e, chunk, q)
 //@     invariant forall l2 Int :: 0 <= l2 && l2 < nitems(e) ==> rowsOf(as(e.Right, *ListExpr).List[l2], chunk, listValues[l2]) && (len(chunk) > 0 ==> ptr(listValues[l2]) != ptr(rleft))
 //@     invariant[C03] done: !number ==> (forall q Int :: 0 <= q && q < i ==> rleft[q] == ABool(inTextNC(e, chunk, q, nitems(e))))
 //@   loop 2
+//@     invariant[C05] coh: cohChunk(ctx, chunk)
+//@     invariant[C05] added: ctx != nil && len(chunk) > 0 ==> (forall S B :: has(ctx.FieldChunkKeyCaches, S) ==> old(has(ctx.FieldChunkKeyCaches, S)) || fkOf(S) == ck(chunk, 0))
+//@     invariant[C05] colsok: ctx != nil && old(forall q B :: has(ctx.FieldChunkCaches, q) ==> len(ctx.FieldChunkCaches[q]) >= len(chunk)) ==> (forall q B :: has(ctx.FieldChunkCaches, q) ==> len(ctx.FieldChunkCaches[q]) >= len(chunk))
+//@     invariant[C05] addfresh: ctx != nil ==> (forall S B :: has(ctx.FieldChunkKeyCaches, S) ==> (old(has(ctx.FieldChunkKeyCaches, S)) && ctx.FieldChunkKeyCaches[S] == old(ctx.FieldChunkKeyCaches[S])) || fresh(ctx.FieldChunkKeyCaches[S]))
+//@     invariant[C05] apart: ctx != nil ==> (forall S B :: has(ctx.FieldChunkKeyCaches, S) ==> ptr(ctx.FieldChunkKeyCaches[S]) != ptr(rleft) || isnil(rleft))
 //@     invariant 0 <= i && i < len(chunk) && 0 <= j && j <= len(listValues) && len(rleft) == len(chunk) && (isnil(rleft) || fresh(rleft)) && len(listValues) == nitems(e) && fresh(listValues) && is(e.Right, *ListExpr) && !cmpRet && left == lvI(e, chunk, i)
 //@     invariant forall q Int :: 0 <= q && q < len(chunk) ==> lokI(e, chunk, q)
 //@     invariant forall q Int :: i <= q && q < len(chunk) ==> rleft[q] == lvI(e, chunk, q)
@@ -226,16 +381,32 @@ package kvql
 //@     use j
 //@     use i
 //@   loop 3
+//@     invariant[C05] coh: cohChunk(ctx, chunk)
+//@     invariant[C05] added: ctx != nil && len(chunk) > 0 ==> (forall S B :: has(ctx.FieldChunkKeyCaches, S) ==> old(has(ctx.FieldChunkKeyCaches, S)) || fkOf(S) == ck(chunk, 0))
+//@     invariant[C05] colsok: ctx != nil && old(forall q B :: has(ctx.FieldChunkCaches, q) ==> len(ctx.FieldChunkCaches[q]) >= len(chunk)) ==> (forall q B :: has(ctx.FieldChunkCaches, q) ==> len(ctx.FieldChunkCaches[q]) >= len(chunk))
+//@     invariant[C05] addfresh: ctx != nil ==> (forall S B :: has(ctx.FieldChunkKeyCaches, S) ==> (old(has(ctx.FieldChunkKeyCaches, S)) && ctx.FieldChunkKeyCaches[S] == old(ctx.FieldChunkKeyCaches[S])) || fresh(ctx.FieldChunkKeyCaches[S]))
+//@     invariant[C05] apart: ctx != nil ==> (forall S B :: has(ctx.FieldChunkKeyCaches, S) ==> ptr(ctx.FieldChunkKeyCaches[S]) != ptr(rleft) || isnil(rleft))
 //@     invariant 0 <= local(i#2) && local(i#2) <= len(chunk) && len(rleft) == len(chunk) && (isnil(rleft) || fresh(rleft)) && len(frets) == len(chunk) && !is(e.Right, *ListExpr)
 //@     invariant forall q Int :: 0 <= q && q < len(chunk) ==> lokI(e, chunk, q)
 //@   loop 4
+//@     invariant[C05] coh: cohChunk(ctx, chunk)
+//@     invariant[C05] added: ctx != nil && len(chunk) > 0 ==> (forall S B :: has(ctx.FieldChunkKeyCaches, S) ==> old(has(ctx.FieldChunkKeyCaches, S)) || fkOf(S) == ck(chunk, 0))
+//@     invariant[C05] colsok: ctx != nil && old(forall q B :: has(ctx.FieldChunkCaches, q) ==> len(ctx.FieldChunkCaches[q]) >= len(chunk)) ==> (forall q B :: has(ctx.FieldChunkCaches, q) ==> len(ctx.FieldChunkCaches[q]) >= len(chunk))
+//@     invariant[C05] addfresh: ctx != nil ==> (forall S B :: has(ctx.FieldChunkKeyCaches, S) ==> (old(has(ctx.FieldChunkKeyCaches, S)) && ctx.FieldChunkKeyCaches[S] == old(ctx.FieldChunkKeyCaches[S])) || fresh(ctx.FieldChunkKeyCaches[S]))
+//@     invariant[C05] apart: ctx != nil ==> (forall S B :: has(ctx.FieldChunkKeyCaches, S) ==> ptr(ctx.FieldChunkKeyCaches[S]) != ptr(rleft) || isnil(rleft))
 //@     invariant 0 <= local(i#2) && local(i#2) < len(chunk) && 0 <= local(j#2) && local(j#2) <= len(values) && len(rleft) == len(chunk) && (isnil(rleft) || fresh(rleft)) && len(frets) == len(chunk) && !is(e.Right, *ListExpr) && (isnil(values) || fresh(values))
 //@     invariant forall q Int :: 0 <= q && q < len(chunk) ==> lokI(e, chunk, q)
 //
 // BETWEEN in batch mode: row i is what the row form gives on pair i (text bounds byte-wise, integer
 // bounds numerically; bounds in the wrong order stop the batch like they stop the row form).
 //@ func (e *BinaryOpExpr) execBetweenBatch(chunk []KVPair, number bool, ctx *ExecuteCtx) (ret []any, err error)
-//@   props C03
+//@   props C03 C05
+//@   requires[C05] coh: cohChunk(ctx, chunk) && wfCtxB(ctx) && wfRefs()
+//@   ensures[C05] coh: cohChunk(ctx, chunk)
+//@   ensures[C05] added: ctx != nil && len(chunk) > 0 ==> (forall S B :: has(ctx.FieldChunkKeyCaches, S) ==> old(has(ctx.FieldChunkKeyCaches, S)) || fkOf(S) == ck(chunk, 0))
+//@   ensures[C05] colsok: ctx != nil && old(forall q B :: has(ctx.FieldChunkCaches, q) ==> len(ctx.FieldChunkCaches[q]) >= len(chunk)) ==> (forall q B :: has(ctx.FieldChunkCaches, q) ==> len(ctx.FieldChunkCaches[q]) >= len(chunk))
+//@   ensures[C05] apart: err == nil && ctx != nil ==> (forall S B :: has(ctx.FieldChunkKeyCaches, S) ==> ptr(ctx.FieldChunkKeyCaches[S]) != ptr(ret) || isnil(ret))
+//@   ensures[C05] addfresh: ctx != nil ==> (forall S B :: has(ctx.FieldChunkKeyCaches, S) ==> (old(has(ctx.FieldChunkKeyCaches, S)) && ctx.FieldChunkKeyCaches[S] == old(ctx.FieldChunkKeyCaches[S])) || fresh(ctx.FieldChunkKeyCaches[S]))
 //@   requires wfBetween(e)
 //@   assigns ctx.Hit, mapof(ctx.FieldCaches), mapof(ctx.FieldChunkKeyCaches), mapof(ctx.FieldChunkCaches)
 //@   ensures[C03] shape: err == nil ==> len(ret) == len(chunk) && bshape(e) && (forall i Int :: 0 <= i && i < len(chunk) ==> lokI(e, chunk, i) && evalok(blo(e), ck(chunk, i), cv(chunk, i)) && evalok(bhi(e), ck(chunk, i), cv(chunk, i)))
@@ -246,6 +417,11 @@ package kvql
 //@   ensures[C03] twin: err == nil && e.Op == Between && rtype(e.Left) == TSTR && !number ==> rowsOf(e, chunk, ret)
 //@   ensures own: err == nil ==> isnil(ret) || fresh(ret)
 //@   loop 0
+//@     invariant[C05] coh: cohChunk(ctx, chunk)
+//@     invariant[C05] added: ctx != nil && len(chunk) > 0 ==> (forall S B :: has(ctx.FieldChunkKeyCaches, S) ==> old(has(ctx.FieldChunkKeyCaches, S)) || fkOf(S) == ck(chunk, 0))
+//@     invariant[C05] colsok: ctx != nil && old(forall q B :: has(ctx.FieldChunkCaches, q) ==> len(ctx.FieldChunkCaches[q]) >= len(chunk)) ==> (forall q B :: has(ctx.FieldChunkCaches, q) ==> len(ctx.FieldChunkCaches[q]) >= len(chunk))
+//@     invariant[C05] addfresh: ctx != nil ==> (forall S B :: has(ctx.FieldChunkKeyCaches, S) ==> (old(has(ctx.FieldChunkKeyCaches, S)) && ctx.FieldChunkKeyCaches[S] == old(ctx.FieldChunkKeyCaches[S])) || fresh(ctx.FieldChunkKeyCaches[S]))
+//@     invariant[C05] apart: ctx != nil ==> (forall S B :: has(ctx.FieldChunkKeyCaches, S) ==> ptr(ctx.FieldChunkKeyCaches[S]) != ptr(rleft) || isnil(rleft))
 //@     invariant 0 <= i && i <= len(chunk) && len(rleft) == len(chunk) && len(lbvals) == len(chunk) && len(ubvals) == len(chunk) && (isnil(rleft) || fresh(rleft)) && (isnil(lbvals) || fresh(lbvals)) && (isnil(ubvals) || fresh(ubvals)) && (len(chunk) > 0 ==> ptr(rleft) != ptr(lbvals) && ptr(rleft) != ptr(ubvals)) && bshape(e) && lexpr == blo(e) && uexpr == bhi(e)
 //@     invariant forall j Int :: 0 <= j && j < len(chunk) ==> lokI(e, chunk, j) && evalok(blo(e), ck(chunk, j), cv(chunk, j)) && evalok(bhi(e), ck(chunk, j), cv(chunk, j)) && lbvals[j] == evalv(blo(e), ck(chunk, j), cv(chunk, j)) && ubvals[j] == evalv(bhi(e), ck(chunk, j), cv(chunk, j))
 //@     invariant forall j Int :: i <= j && j < len(chunk) ==> rleft[j] == lvI(e, chunk, j)
@@ -253,12 +429,23 @@ package kvql
 //@     invariant number ==> (forall j Int :: 0 <= j && j < i ==> isNum(lvI(e, chunk, j)) && isNum(evalv(blo(e), ck(chunk, j), cv(chunk, j))) && isNum(evalv(bhi(e), ck(chunk, j), cv(chunk, j))) && (isInt(lvI(e, chunk, j)) && isInt(evalv(blo(e), ck(chunk, j), cv(chunk, j))) && isInt(evalv(bhi(e), ck(chunk, j), cv(chunk, j))) ==> intof(evalv(blo(e), ck(chunk, j), cv(chunk, j))) <= intof(evalv(bhi(e), ck(chunk, j), cv(chunk, j))) && rleft[j] == ABool(intof(evalv(blo(e), ck(chunk, j), cv(chunk, j))) <= intof(lvI(e, chunk, j)) && intof(lvI(e, chunk, j)) <= intof(evalv(bhi(e), ck(chunk, j), cv(chunk, j))))))
 //
 //@ func (e *BinaryOpExpr) execStringConcateBatch(chunk []KVPair, ctx *ExecuteCtx) (ret []any, err error)
-//@   props C03
+//@   props C03 C05
+//@   requires[C05] coh: cohChunk(ctx, chunk) && wfCtxB(ctx) && wfRefs()
+//@   ensures[C05] coh: cohChunk(ctx, chunk)
+//@   ensures[C05] added: ctx != nil && len(chunk) > 0 ==> (forall S B :: has(ctx.FieldChunkKeyCaches, S) ==> old(has(ctx.FieldChunkKeyCaches, S)) || fkOf(S) == ck(chunk, 0))
+//@   ensures[C05] colsok: ctx != nil && old(forall q B :: has(ctx.FieldChunkCaches, q) ==> len(ctx.FieldChunkCaches[q]) >= len(chunk)) ==> (forall q B :: has(ctx.FieldChunkCaches, q) ==> len(ctx.FieldChunkCaches[q]) >= len(chunk))
+//@   ensures[C05] apart: err == nil && ctx != nil ==> (forall S B :: has(ctx.FieldChunkKeyCaches, S) ==> ptr(ctx.FieldChunkKeyCaches[S]) != ptr(ret) || isnil(ret))
+//@   ensures[C05] addfresh: ctx != nil ==> (forall S B :: has(ctx.FieldChunkKeyCaches, S) ==> (old(has(ctx.FieldChunkKeyCaches, S)) && ctx.FieldChunkKeyCaches[S] == old(ctx.FieldChunkKeyCaches[S])) || fresh(ctx.FieldChunkKeyCaches[S]))
 //@   requires wfBin(e)
 //@   assigns ctx.Hit, mapof(ctx.FieldCaches), mapof(ctx.FieldChunkKeyCaches), mapof(ctx.FieldChunkCaches)
 //@   ensures[C03] same: err == nil ==> len(ret) == len(chunk) && (forall i Int :: 0 <= i && i < len(chunk) ==> lokI(e, chunk, i) && rokI(e, chunk, i) && isText(lvI(e, chunk, i)) && isText(rvI(e, chunk, i)) && isText(ret[i]) && textOf(ret[i]) == cat(textOf(lvI(e, chunk, i)), textOf(rvI(e, chunk, i))))
 //@   ensures own: err == nil ==> isnil(ret) || fresh(ret)
 //@   loop 0
+//@     invariant[C05] coh: cohChunk(ctx, chunk)
+//@     invariant[C05] added: ctx != nil && len(chunk) > 0 ==> (forall S B :: has(ctx.FieldChunkKeyCaches, S) ==> old(has(ctx.FieldChunkKeyCaches, S)) || fkOf(S) == ck(chunk, 0))
+//@     invariant[C05] colsok: ctx != nil && old(forall q B :: has(ctx.FieldChunkCaches, q) ==> len(ctx.FieldChunkCaches[q]) >= len(chunk)) ==> (forall q B :: has(ctx.FieldChunkCaches, q) ==> len(ctx.FieldChunkCaches[q]) >= len(chunk))
+//@     invariant[C05] addfresh: ctx != nil ==> (forall S B :: has(ctx.FieldChunkKeyCaches, S) ==> (old(has(ctx.FieldChunkKeyCaches, S)) && ctx.FieldChunkKeyCaches[S] == old(ctx.FieldChunkKeyCaches[S])) || fresh(ctx.FieldChunkKeyCaches[S]))
+//@     invariant[C05] apart: ctx != nil ==> (forall S B :: has(ctx.FieldChunkKeyCaches, S) ==> ptr(ctx.FieldChunkKeyCaches[S]) != ptr(left) || isnil(left))
 //@     invariant 0 <= i && i <= len(chunk) && len(left) == len(chunk) && len(right) == len(chunk) && (isnil(left) || fresh(left)) && (isnil(right) || fresh(right)) && (len(chunk) > 0 ==> ptr(left) != ptr(right)) && bothOk(e, chunk)
 //@     invariant forall j Int :: 0 <= j && j < len(chunk) ==> right[j] == rvI(e, chunk, j)
 //@     invariant forall j Int :: i <= j && j < len(chunk) ==> left[j] == lvI(e, chunk, j)
@@ -293,19 +480,41 @@ package kvql
 //
 //@ func (e *FunctionCallExpr) executeFuncBatch(funcObj *Function, chunk []KVPair, ctx *ExecuteCtx) (ret []any, err error)
 //@   props C03 C05
+//@   requires[C05] coh: cohChunk(ctx, chunk) && wfCtxB(ctx) && wfRefs()
+//@   ensures[C05] coh: cohChunk(ctx, chunk)
+//@   ensures[C05] added: ctx != nil && len(chunk) > 0 ==> (forall S B :: has(ctx.FieldChunkKeyCaches, S) ==> old(has(ctx.FieldChunkKeyCaches, S)) || fkOf(S) == ck(chunk, 0))
+//@   ensures[C05] colsok: ctx != nil && old(forall q B :: has(ctx.FieldChunkCaches, q) ==> len(ctx.FieldChunkCaches[q]) >= len(chunk)) ==> (forall q B :: has(ctx.FieldChunkCaches, q) ==> len(ctx.FieldChunkCaches[q]) >= len(chunk))
+//@   ensures[C05] apart: err == nil && ctx != nil ==> (forall S B :: has(ctx.FieldChunkKeyCaches, S) ==> ptr(ctx.FieldChunkKeyCaches[S]) != ptr(ret) || isnil(ret))
+//@   ensures[C05] addfresh: ctx != nil ==> (forall S B :: has(ctx.FieldChunkKeyCaches, S) ==> (old(has(ctx.FieldChunkKeyCaches, S)) && ctx.FieldChunkKeyCaches[S] == old(ctx.FieldChunkKeyCaches[S])) || fresh(ctx.FieldChunkKeyCaches[S]))
 //@   requires e != nil && funcObj != nil && (funcObj.BodyVec != nil || funcObj.Body != nil)
 //@   requires[C05] wf: wfCtx(ctx) && wfRefs()
 //@   assigns ctx.Hit, mapof(ctx.FieldCaches), mapof(ctx.FieldChunkKeyCaches), mapof(ctx.FieldChunkCaches), allof(FunctionCallExpr.Result)
 //@   loop 0
+//@     invariant[C05] coh: cohChunk(ctx, chunk)
+//@     invariant[C05] added: ctx != nil && len(chunk) > 0 ==> (forall S B :: has(ctx.FieldChunkKeyCaches, S) ==> old(has(ctx.FieldChunkKeyCaches, S)) || fkOf(S) == ck(chunk, 0))
+//@     invariant[C05] colsok: ctx != nil && old(forall q B :: has(ctx.FieldChunkCaches, q) ==> len(ctx.FieldChunkCaches[q]) >= len(chunk)) ==> (forall q B :: has(ctx.FieldChunkCaches, q) ==> len(ctx.FieldChunkCaches[q]) >= len(chunk))
+//@     invariant[C05] addfresh: ctx != nil ==> (forall S B :: has(ctx.FieldChunkKeyCaches, S) ==> (old(has(ctx.FieldChunkKeyCaches, S)) && ctx.FieldChunkKeyCaches[S] == old(ctx.FieldChunkKeyCaches[S])) || fresh(ctx.FieldChunkKeyCaches[S]))
+//@     invariant[C05] apart: ctx != nil ==> (forall S B :: has(ctx.FieldChunkKeyCaches, S) ==> ptr(ctx.FieldChunkKeyCaches[S]) != ptr(ret) || isnil(ret))
 //@     invariant 0 <= i && i <= len(chunk) && fresh(ret) && len(ret) == len(chunk)
 //
 //@ func (e *FunctionCallExpr) ExecuteBatch(chunk []KVPair, ctx *ExecuteCtx) (ret []any, err error)
 //@   props C03 C05
+//@   requires[C05] coh: cohChunk(ctx, chunk) && wfCtxB(ctx) && wfRefs()
+//@   ensures[C05] coh: cohChunk(ctx, chunk)
+//@   ensures[C05] added: ctx != nil && len(chunk) > 0 ==> (forall S B :: has(ctx.FieldChunkKeyCaches, S) ==> old(has(ctx.FieldChunkKeyCaches, S)) || fkOf(S) == ck(chunk, 0))
+//@   ensures[C05] colsok: ctx != nil && old(forall q B :: has(ctx.FieldChunkCaches, q) ==> len(ctx.FieldChunkCaches[q]) >= len(chunk)) ==> (forall q B :: has(ctx.FieldChunkCaches, q) ==> len(ctx.FieldChunkCaches[q]) >= len(chunk))
+//@   ensures[C05] apart: err == nil && ctx != nil ==> (forall S B :: has(ctx.FieldChunkKeyCaches, S) ==> ptr(ctx.FieldChunkKeyCaches[S]) != ptr(ret) || isnil(ret))
+//@   ensures[C05] addfresh: ctx != nil ==> (forall S B :: has(ctx.FieldChunkKeyCaches, S) ==> (old(has(ctx.FieldChunkKeyCaches, S)) && ctx.FieldChunkKeyCaches[S] == old(ctx.FieldChunkKeyCaches[S])) || fresh(ctx.FieldChunkKeyCaches[S]))
 //@   requires e != nil
 //@   requires[C05] wf: wfCtx(ctx) && wfRefs()
 //@   assigns ctx.Hit, mapof(ctx.FieldCaches), mapof(ctx.FieldChunkKeyCaches), mapof(ctx.FieldChunkCaches), allof(FunctionCallExpr.Result)
 //@   ensures[C03] arity: err == nil && e.Result == nil ==> arityOK(scalarFn(e), len(e.Args))
 //@   loop 0
+//@     invariant[C05] coh: cohChunk(ctx, chunk)
+//@     invariant[C05] added: ctx != nil && len(chunk) > 0 ==> (forall S B :: has(ctx.FieldChunkKeyCaches, S) ==> old(has(ctx.FieldChunkKeyCaches, S)) || fkOf(S) == ck(chunk, 0))
+//@     invariant[C05] colsok: ctx != nil && old(forall q B :: has(ctx.FieldChunkCaches, q) ==> len(ctx.FieldChunkCaches[q]) >= len(chunk)) ==> (forall q B :: has(ctx.FieldChunkCaches, q) ==> len(ctx.FieldChunkCaches[q]) >= len(chunk))
+//@     invariant[C05] addfresh: ctx != nil ==> (forall S B :: has(ctx.FieldChunkKeyCaches, S) ==> (old(has(ctx.FieldChunkKeyCaches, S)) && ctx.FieldChunkKeyCaches[S] == old(ctx.FieldChunkKeyCaches[S])) || fresh(ctx.FieldChunkKeyCaches[S]))
+//@     invariant[C05] apart: ctx != nil ==> (forall S B :: has(ctx.FieldChunkKeyCaches, S) ==> ptr(ctx.FieldChunkKeyCaches[S]) != ptr(ret) || isnil(ret))
 //@     invariant 0 <= i && i <= len(chunk) && len(ret) == len(chunk) && fresh(ret)
 //
 // The registered function bodies (called through function values): frame only.
@@ -314,21 +523,43 @@ package kvql
 //@   ensures[C05] coherent: coherent(ctx, val(kv.Key), val(kv.Value))
 //@   assigns ctx.Hit, mapof(ctx.FieldCaches), mapof(ctx.FieldChunkKeyCaches), mapof(ctx.FieldChunkCaches), allof(FunctionCallExpr.Result)
 //@ functype VectorFunctionBody(body VectorFunctionBody, chunk []KVPair, args []Expression, ctx *ExecuteCtx) (ret []any, err error)
+//@   requires[C05] coh: cohChunk(ctx, chunk) && wfCtxB(ctx) && wfRefs()
+//@   ensures[C05] coh: cohChunk(ctx, chunk)
+//@   ensures[C05] added: ctx != nil && len(chunk) > 0 ==> (forall S B :: has(ctx.FieldChunkKeyCaches, S) ==> old(has(ctx.FieldChunkKeyCaches, S)) || fkOf(S) == ck(chunk, 0))
+//@   ensures[C05] colsok: ctx != nil && old(forall q B :: has(ctx.FieldChunkCaches, q) ==> len(ctx.FieldChunkCaches[q]) >= len(chunk)) ==> (forall q B :: has(ctx.FieldChunkCaches, q) ==> len(ctx.FieldChunkCaches[q]) >= len(chunk))
+//@   ensures[C05] apart: err == nil && ctx != nil ==> (forall S B :: has(ctx.FieldChunkKeyCaches, S) ==> ptr(ctx.FieldChunkKeyCaches[S]) != ptr(ret) || isnil(ret))
+//@   ensures[C05] addfresh: ctx != nil ==> (forall S B :: has(ctx.FieldChunkKeyCaches, S) ==> (old(has(ctx.FieldChunkKeyCaches, S)) && ctx.FieldChunkKeyCaches[S] == old(ctx.FieldChunkKeyCaches[S])) || fresh(ctx.FieldChunkKeyCaches[S]))
 //@   assigns ctx.Hit, mapof(ctx.FieldCaches), mapof(ctx.FieldChunkKeyCaches), mapof(ctx.FieldChunkCaches), allof(FunctionCallExpr.Result)
 //
 // The filter on a chunk: the same verdicts as the row filter gives pair by pair.
 //@ func (e *FilterExec) filterChunk(chunk []KVPair, ctx *ExecuteCtx) (ret []bool, err error)
-//@   props C03
+//@   props C03 C05
+//@   requires[C05] coh: cohChunk(ctx, chunk) && wfCtxB(ctx) && wfRefs()
+//@   ensures[C05] coh: cohChunk(ctx, chunk)
+//@   ensures[C05] added: ctx != nil && len(chunk) > 0 ==> (forall S B :: has(ctx.FieldChunkKeyCaches, S) ==> old(has(ctx.FieldChunkKeyCaches, S)) || fkOf(S) == ck(chunk, 0))
+//@   ensures[C05] colsok: ctx != nil && old(forall q B :: has(ctx.FieldChunkCaches, q) ==> len(ctx.FieldChunkCaches[q]) >= len(chunk)) ==> (forall q B :: has(ctx.FieldChunkCaches, q) ==> len(ctx.FieldChunkCaches[q]) >= len(chunk))
+//@   ensures[C05] apart: err == nil && ctx != nil ==> (forall S B :: has(ctx.FieldChunkKeyCaches, S) ==> ptr(ctx.FieldChunkKeyCaches[S]) != ptr(ret) || isnil(ret))
+//@   ensures[C05] addfresh: ctx != nil ==> (forall S B :: has(ctx.FieldChunkKeyCaches, S) ==> (old(has(ctx.FieldChunkKeyCaches, S)) && ctx.FieldChunkKeyCaches[S] == old(ctx.FieldChunkKeyCaches[S])) || fresh(ctx.FieldChunkKeyCaches[S]))
 //@   requires wfFilter(e)
 //@   assigns ctx.Hit, mapof(ctx.FieldCaches), mapof(ctx.FieldChunkKeyCaches), mapof(ctx.FieldChunkCaches)
 //@   ensures[C03] twin: err == nil ==> len(ret) == len(chunk) && (forall i Int :: 0 <= i && i < len(chunk) ==> evOk(fexpr(e), ck(chunk, i), cv(chunk, i)) && ret[i] == passes(e, ck(chunk, i), cv(chunk, i)))
 //@   loop 0
+//@     invariant[C05] coh: cohChunk(ctx, chunk)
+//@     invariant[C05] added: ctx != nil && len(chunk) > 0 ==> (forall S B :: has(ctx.FieldChunkKeyCaches, S) ==> old(has(ctx.FieldChunkKeyCaches, S)) || fkOf(S) == ck(chunk, 0))
+//@     invariant[C05] colsok: ctx != nil && old(forall q B :: has(ctx.FieldChunkCaches, q) ==> len(ctx.FieldChunkCaches[q]) >= len(chunk)) ==> (forall q B :: has(ctx.FieldChunkCaches, q) ==> len(ctx.FieldChunkCaches[q]) >= len(chunk))
+//@     invariant[C05] addfresh: ctx != nil ==> (forall S B :: has(ctx.FieldChunkKeyCaches, S) ==> (old(has(ctx.FieldChunkKeyCaches, S)) && ctx.FieldChunkKeyCaches[S] == old(ctx.FieldChunkKeyCaches[S])) || fresh(ctx.FieldChunkKeyCaches[S]))
 //@     invariant 0 <= i && i <= len(result) && len(ret) == len(result) && len(result) == len(chunk) && fresh(ret) && (isnil(result) || fresh(result)) && (len(chunk) > 0 ==> ptr(ret) != ptr(result))
 //@     invariant forall j Int :: 0 <= j && j < len(chunk) ==> evalok(fexpr(e), ck(chunk, j), cv(chunk, j)) && result[j] == evalv(fexpr(e), ck(chunk, j), cv(chunk, j))
 //@     invariant forall j Int :: 0 <= j && j < i ==> isbool(result[j]) && ret[j] == bval(result[j])
 //
 //@ func (e *FilterExec) FilterBatch(chunk []KVPair, ctx *ExecuteCtx) (ret []bool, err error)
-//@   props C03
+//@   props C03 C05
+//@   requires[C05] coh: cohChunk(ctx, chunk) && wfCtxB(ctx) && wfRefs()
+//@   ensures[C05] coh: cohChunk(ctx, chunk)
+//@   ensures[C05] added: ctx != nil && len(chunk) > 0 ==> (forall S B :: has(ctx.FieldChunkKeyCaches, S) ==> old(has(ctx.FieldChunkKeyCaches, S)) || fkOf(S) == ck(chunk, 0))
+//@   ensures[C05] colsok: ctx != nil && old(forall q B :: has(ctx.FieldChunkCaches, q) ==> len(ctx.FieldChunkCaches[q]) >= len(chunk)) ==> (forall q B :: has(ctx.FieldChunkCaches, q) ==> len(ctx.FieldChunkCaches[q]) >= len(chunk))
+//@   ensures[C05] apart: err == nil && ctx != nil ==> (forall S B :: has(ctx.FieldChunkKeyCaches, S) ==> ptr(ctx.FieldChunkKeyCaches[S]) != ptr(ret) || isnil(ret))
+//@   ensures[C05] addfresh: ctx != nil ==> (forall S B :: has(ctx.FieldChunkKeyCaches, S) ==> (old(has(ctx.FieldChunkKeyCaches, S)) && ctx.FieldChunkKeyCaches[S] == old(ctx.FieldChunkKeyCaches[S])) || fresh(ctx.FieldChunkKeyCaches[S]))
 //@   requires wfFilter(e)
 //@   assigns ctx.Hit, mapof(ctx.FieldCaches), mapof(ctx.FieldChunkKeyCaches), mapof(ctx.FieldChunkCaches)
 //@   ensures[C03] twin: err == nil ==> len(ret) == len(chunk) && (forall i Int :: 0 <= i && i < len(chunk) ==> evOk(fexpr(e), ck(chunk, i), cv(chunk, i)) && ret[i] == passes(e, ck(chunk, i), cv(chunk, i)))
@@ -360,6 +591,7 @@ package kvql
 //@   ghost j Int
 //@   ghost m Int
 //@   requires p != nil && wfFilter(p.Filter) && wfCur(p.iter) && !failed && ctx != nil && PlanBatchSize > 0 && (ctx.EnableCache ==> ctx.FieldChunkCaches != nil)
+//@   requires[C05] c5: (ctx.EnableCache ==> (forall q B :: !has(ctx.FieldChunkKeyCaches, q))) && wfCtxB(ctx) && wfRefs()
 //@   assigns cpos(p.iter), nops, failed, lastErr, ctx.Hit, mapof(ctx.FieldCaches), mapof(ctx.FieldChunkKeyCaches), mapof(ctx.FieldChunkCaches)
 //@   ensures[C01, C03] pos: err == nil ==> wfCur(p.iter) && old(cpos(p.iter)) <= cpos(p.iter) && len(local(chooseIdxes)) == len(ret) && ascIdx(local(chooseIdxes), cpos(p.iter) - old(cpos(p.iter)))
 //@   ensures[C01, C03] rows: err == nil && 0 <= j && j < len(ret) ==> val(ret[j].Key) == ckey(p.iter, old(cpos(p.iter)) + local(chooseIdxes)[j]) && val(ret[j].Value) == cval(p.iter, old(cpos(p.iter)) + local(chooseIdxes)[j]) && passes(p.Filter, val(ret[j].Key), val(ret[j].Value))
@@ -370,26 +602,33 @@ package kvql
 //@   ensures[C13] readonly: nmut == old(nmut)
 //@   ensures[C13] surfaced: (failed ==> err == lastErr) && (err == nil ==> !failed)
 //@   loop 0
+//@     invariant[C05] older: ctx.EnableCache ==> (forall S B :: has(ctx.FieldChunkKeyCaches, S) ==> old(cpos(p.iter)) + bidx - 1 >= old(cpos(p.iter)) && fkOf(S) <= ckey(p.iter, old(cpos(p.iter)) + bidx - 1))
 //@     invariant[C13] ro: nmut == old(nmut)
 //@     invariant wfCur(p.iter) && !failed && count >= 0 && len(ret) == count && len(chooseIdxes) == count && bidx >= 0 && fresh(ret) && fresh(chooseIdxes) && fresh(filterBatch) && ascIdx(chooseIdxes, bidx)
-//@     invariant[C01, C03] at: cpos(p.iter) == old(cpos(p.iter)) + bidx && (finish ==> count >= PlanBatchSize || cpos(p.iter) == clen(p.iter)) && ptr(filterBatch) != ptr(ret)
+//@     invariant[C01, C03, C05] at: cpos(p.iter) == old(cpos(p.iter)) + bidx && (finish ==> count >= PlanBatchSize || cpos(p.iter) == clen(p.iter)) && ptr(filterBatch) != ptr(ret)
 //@     invariant[C01, C03] rows: 0 <= j && j < count ==> val(ret[j].Key) == ckey(p.iter, old(cpos(p.iter)) + chooseIdxes[j]) && val(ret[j].Value) == cval(p.iter, old(cpos(p.iter)) + chooseIdxes[j]) && passes(p.Filter, val(ret[j].Key), val(ret[j].Value))
 //@     invariant[C01, C03] gaps: 0 <= j && j < count && gapLo(chooseIdxes, j) <= m && m < chooseIdxes[j] ==> !passes(p.Filter, ckey(p.iter, old(cpos(p.iter)) + m), cval(p.iter, old(cpos(p.iter)) + m))
 //@     invariant[C01, C03] tail: gapLo(chooseIdxes, count) <= m && m < bidx ==> !passes(p.Filter, ckey(p.iter, old(cpos(p.iter)) + m), cval(p.iter, old(cpos(p.iter)) + m))
 //@   loop 1
+//@     use csorted(p.iter, old(cpos(p.iter)) + bidx - 1, old(cpos(p.iter)) + bidx)
+//@     invariant[C05] older: ctx.EnableCache ==> (forall S B :: has(ctx.FieldChunkKeyCaches, S) ==> old(cpos(p.iter)) + bidx - 1 >= old(cpos(p.iter)) && fkOf(S) <= ckey(p.iter, old(cpos(p.iter)) + bidx - 1))
 //@     invariant[C13] ro: nmut == old(nmut)
 //@     invariant wfCur(p.iter) && !failed && 0 <= i && i <= PlanBatchSize && len(filterBatch) <= i && fresh(filterBatch)
 //@     invariant count >= 0 && len(ret) == count && len(chooseIdxes) == count && bidx >= 0 && fresh(ret) && fresh(chooseIdxes) && ascIdx(chooseIdxes, bidx)
-//@     invariant[C01, C03] at: cpos(p.iter) == old(cpos(p.iter)) + bidx + len(filterBatch) && (finish ==> count >= PlanBatchSize || cpos(p.iter) == clen(p.iter)) && ptr(filterBatch) != ptr(ret)
-//@     invariant[C01, C03] fetched: forall t Int :: 0 <= t && t < len(filterBatch) ==> val(filterBatch[t].Key) == ckey(p.iter, old(cpos(p.iter)) + bidx + t) && val(filterBatch[t].Value) == cval(p.iter, old(cpos(p.iter)) + bidx + t)
+//@     invariant[C01, C03, C05] at: cpos(p.iter) == old(cpos(p.iter)) + bidx + len(filterBatch) && (finish ==> count >= PlanBatchSize || cpos(p.iter) == clen(p.iter)) && ptr(filterBatch) != ptr(ret)
+//@     invariant[C01, C03, C05] fetched: forall t Int :: 0 <= t && t < len(filterBatch) ==> val(filterBatch[t].Key) == ckey(p.iter, old(cpos(p.iter)) + bidx + t) && val(filterBatch[t].Value) == cval(p.iter, old(cpos(p.iter)) + bidx + t)
 //@     invariant[C01, C03] rows: 0 <= j && j < count ==> val(ret[j].Key) == ckey(p.iter, old(cpos(p.iter)) + chooseIdxes[j]) && val(ret[j].Value) == cval(p.iter, old(cpos(p.iter)) + chooseIdxes[j]) && passes(p.Filter, val(ret[j].Key), val(ret[j].Value))
 //@     invariant[C01, C03] gaps: 0 <= j && j < count && gapLo(chooseIdxes, j) <= m && m < chooseIdxes[j] ==> !passes(p.Filter, ckey(p.iter, old(cpos(p.iter)) + m), cval(p.iter, old(cpos(p.iter)) + m))
 //@     invariant[C01, C03] tail: gapLo(chooseIdxes, count) <= m && m < bidx ==> !passes(p.Filter, ckey(p.iter, old(cpos(p.iter)) + m), cval(p.iter, old(cpos(p.iter)) + m))
 //@   loop 2
+//@     use csorted(p.iter, old(cpos(p.iter)) + bidx - (rangeindex + 1) - 1, old(cpos(p.iter)) + bidx - (rangeindex + 1))
+//@     use csorted(p.iter, old(cpos(p.iter)) + bidx - (rangeindex + 1) - 1, old(cpos(p.iter)) + bidx - (rangeindex + 1) + len(filterBatch) - 1)
+//@     use csorted(p.iter, old(cpos(p.iter)) + bidx - (rangeindex + 1), old(cpos(p.iter)) + bidx - (rangeindex + 1) + len(filterBatch) - 1)
+//@     invariant[C05] older: ctx.EnableCache ==> (forall S B :: has(ctx.FieldChunkKeyCaches, S) ==> old(cpos(p.iter)) + bidx - (rangeindex + 1) + len(filterBatch) - 1 >= old(cpos(p.iter)) && fkOf(S) <= ckey(p.iter, old(cpos(p.iter)) + bidx - (rangeindex + 1) + len(filterBatch) - 1))
 //@     invariant[C13] ro: nmut == old(nmut)
 //@     invariant count >= 0 && len(ret) == count && len(chooseIdxes) == count && bidx >= 0 && fresh(ret) && fresh(chooseIdxes) && ascIdx(chooseIdxes, bidx) && len(matchs) == len(filterBatch)
-//@     invariant[C01, C03] at: cpos(p.iter) == old(cpos(p.iter)) + bidx + len(filterBatch) - (rangeindex + 1) && (finish ==> count >= PlanBatchSize || cpos(p.iter) == clen(p.iter)) && ptr(filterBatch) != ptr(ret) && wfCur(p.iter)
-//@     invariant[C01, C03] fetched: forall t Int :: 0 <= t && t < len(filterBatch) ==> val(filterBatch[t].Key) == ckey(p.iter, cpos(p.iter) - len(filterBatch) + t) && val(filterBatch[t].Value) == cval(p.iter, cpos(p.iter) - len(filterBatch) + t) && matchs[t] == passes(p.Filter, val(filterBatch[t].Key), val(filterBatch[t].Value))
+//@     invariant[C01, C03, C05] at: cpos(p.iter) == old(cpos(p.iter)) + bidx + len(filterBatch) - (rangeindex + 1) && (finish ==> count >= PlanBatchSize || cpos(p.iter) == clen(p.iter)) && ptr(filterBatch) != ptr(ret) && wfCur(p.iter)
+//@     invariant[C01, C03, C05] fetched: forall t Int :: 0 <= t && t < len(filterBatch) ==> val(filterBatch[t].Key) == ckey(p.iter, cpos(p.iter) - len(filterBatch) + t) && val(filterBatch[t].Value) == cval(p.iter, cpos(p.iter) - len(filterBatch) + t) && matchs[t] == passes(p.Filter, val(filterBatch[t].Key), val(filterBatch[t].Value))
 //@     invariant[C01, C03] rows: 0 <= j && j < count ==> val(ret[j].Key) == ckey(p.iter, old(cpos(p.iter)) + chooseIdxes[j]) && val(ret[j].Value) == cval(p.iter, old(cpos(p.iter)) + chooseIdxes[j]) && passes(p.Filter, val(ret[j].Key), val(ret[j].Value))
 //@     invariant[C01, C03] gaps: 0 <= j && j < count && gapLo(chooseIdxes, j) <= m && m < chooseIdxes[j] ==> !passes(p.Filter, ckey(p.iter, old(cpos(p.iter)) + m), cval(p.iter, old(cpos(p.iter)) + m))
 //@     invariant[C01, C03] tail: gapLo(chooseIdxes, count) <= m && m < bidx ==> !passes(p.Filter, ckey(p.iter, old(cpos(p.iter)) + m), cval(p.iter, old(cpos(p.iter)) + m))
@@ -405,6 +644,7 @@ package kvql
 //@   requires (cpos(p.iter) < clen(p.iter) ==> val(p.Prefix) <= ckey(p.iter, cpos(p.iter)))
 //@   useatret csorted(p.iter, old(cpos(p.iter)), cpos(p.iter) - 1)
 //@   useatret csorted(p.iter, cpos(p.iter) - 1, m)
+//@   requires[C05] c5: (ctx.EnableCache ==> (forall q B :: !has(ctx.FieldChunkKeyCaches, q))) && wfCtxB(ctx) && wfRefs()
 //@   assigns cpos(p.iter), nops, failed, lastErr, ctx.Hit, mapof(ctx.FieldCaches), mapof(ctx.FieldChunkKeyCaches), mapof(ctx.FieldChunkCaches)
 //@   ensures[C01, C03] pos: err == nil ==> wfCur(p.iter) && old(cpos(p.iter)) <= cpos(p.iter) && len(local(chooseIdxes)) == len(ret) && ascIdx(local(chooseIdxes), cpos(p.iter) - old(cpos(p.iter)))
 //@   ensures[C01, C03] rows: err == nil && 0 <= j && j < len(ret) ==> val(ret[j].Key) == ckey(p.iter, old(cpos(p.iter)) + local(chooseIdxes)[j]) && val(ret[j].Value) == cval(p.iter, old(cpos(p.iter)) + local(chooseIdxes)[j]) && passes(p.Filter, val(ret[j].Key), val(ret[j].Value)) && pre(val(p.Prefix), val(ret[j].Key))
@@ -416,38 +656,45 @@ package kvql
 //@   ensures[C13] readonly: nmut == old(nmut)
 //@   ensures[C13] surfaced: (failed ==> err == lastErr) && (err == nil ==> !failed)
 //@   loop 0
+//@     invariant[C05] older: ctx.EnableCache ==> (forall S B :: has(ctx.FieldChunkKeyCaches, S) ==> old(cpos(p.iter)) + bidx - 1 >= old(cpos(p.iter)) && fkOf(S) <= ckey(p.iter, old(cpos(p.iter)) + bidx - 1))
 //@     use csorted(p.iter, cpos(p.iter), cpos(p.iter) + 1)
 //@     invariant[C13] ro: nmut == old(nmut)
 //@     invariant wfCur(p.iter) && !failed && count >= 0 && len(ret) == count && len(chooseIdxes) == count && bidx >= 0 && fresh(ret) && fresh(chooseIdxes) && fresh(filterBatch) && ascIdx(chooseIdxes, bidx) && val(pb) == val(p.Prefix)
-//@     invariant[C01, C03, C18] at: old(cpos(p.iter)) + bidx <= cpos(p.iter) && cpos(p.iter) <= old(cpos(p.iter)) + bidx + 1 && ptr(filterBatch) != ptr(ret)
-//@     invariant[C01, C03, C18] stop: cpos(p.iter) == old(cpos(p.iter)) + bidx + 1 ==> finish && !pre(val(p.Prefix), ckey(p.iter, cpos(p.iter) - 1)) && val(p.Prefix) <= ckey(p.iter, cpos(p.iter) - 1)
-//@     invariant[C01, C03, C18] fin: finish ==> count >= PlanBatchSize || cpos(p.iter) == clen(p.iter) || cpos(p.iter) == old(cpos(p.iter)) + bidx + 1
-//@     invariant[C01, C03, C18] ge: cpos(p.iter) < clen(p.iter) ==> val(p.Prefix) <= ckey(p.iter, cpos(p.iter))
+//@     invariant[C01, C03, C18, C05] at: old(cpos(p.iter)) + bidx <= cpos(p.iter) && cpos(p.iter) <= old(cpos(p.iter)) + bidx + 1 && ptr(filterBatch) != ptr(ret)
+//@     invariant[C01, C03, C18, C05] stop: cpos(p.iter) == old(cpos(p.iter)) + bidx + 1 ==> finish && !pre(val(p.Prefix), ckey(p.iter, cpos(p.iter) - 1)) && val(p.Prefix) <= ckey(p.iter, cpos(p.iter) - 1)
+//@     invariant[C01, C03, C18, C05] fin: finish ==> count >= PlanBatchSize || cpos(p.iter) == clen(p.iter) || cpos(p.iter) == old(cpos(p.iter)) + bidx + 1
+//@     invariant[C01, C03, C18, C05] ge: cpos(p.iter) < clen(p.iter) ==> val(p.Prefix) <= ckey(p.iter, cpos(p.iter))
 //@     invariant[C01, C03] rows: 0 <= j && j < count ==> val(ret[j].Key) == ckey(p.iter, old(cpos(p.iter)) + chooseIdxes[j]) && val(ret[j].Value) == cval(p.iter, old(cpos(p.iter)) + chooseIdxes[j]) && passes(p.Filter, val(ret[j].Key), val(ret[j].Value)) && pre(val(p.Prefix), val(ret[j].Key))
 //@     invariant[C01, C03] gaps: 0 <= j && j < count && gapLo(chooseIdxes, j) <= m && m < chooseIdxes[j] ==> !passes(p.Filter, ckey(p.iter, old(cpos(p.iter)) + m), cval(p.iter, old(cpos(p.iter)) + m))
 //@     invariant[C01, C03] tail: gapLo(chooseIdxes, count) <= m && m < bidx ==> !passes(p.Filter, ckey(p.iter, old(cpos(p.iter)) + m), cval(p.iter, old(cpos(p.iter)) + m))
 //@     invariant[C18] region: 0 <= m && m < bidx ==> pre(val(p.Prefix), ckey(p.iter, old(cpos(p.iter)) + m))
 //@   loop 1
+//@     use csorted(p.iter, old(cpos(p.iter)) + bidx - 1, old(cpos(p.iter)) + bidx)
+//@     invariant[C05] older: ctx.EnableCache ==> (forall S B :: has(ctx.FieldChunkKeyCaches, S) ==> old(cpos(p.iter)) + bidx - 1 >= old(cpos(p.iter)) && fkOf(S) <= ckey(p.iter, old(cpos(p.iter)) + bidx - 1))
 //@     use csorted(p.iter, cpos(p.iter), cpos(p.iter) + 1)
 //@     invariant[C13] ro: nmut == old(nmut)
 //@     invariant wfCur(p.iter) && !failed && 0 <= i && i <= PlanBatchSize && len(filterBatch) <= i && fresh(filterBatch) && val(pb) == val(p.Prefix)
 //@     invariant count >= 0 && len(ret) == count && len(chooseIdxes) == count && bidx >= 0 && fresh(ret) && fresh(chooseIdxes) && ascIdx(chooseIdxes, bidx)
-//@     invariant[C01, C03, C18] at: cpos(p.iter) == old(cpos(p.iter)) + bidx + len(filterBatch) && ptr(filterBatch) != ptr(ret) && !finish
-//@     invariant[C01, C03, C18] ge: cpos(p.iter) < clen(p.iter) ==> val(p.Prefix) <= ckey(p.iter, cpos(p.iter))
-//@     invariant[C01, C03, C18] fetched: forall t Int :: 0 <= t && t < len(filterBatch) ==> val(filterBatch[t].Key) == ckey(p.iter, old(cpos(p.iter)) + bidx + t) && val(filterBatch[t].Value) == cval(p.iter, old(cpos(p.iter)) + bidx + t) && pre(val(p.Prefix), val(filterBatch[t].Key))
+//@     invariant[C01, C03, C18, C05] at: cpos(p.iter) == old(cpos(p.iter)) + bidx + len(filterBatch) && ptr(filterBatch) != ptr(ret) && !finish
+//@     invariant[C01, C03, C18, C05] ge: cpos(p.iter) < clen(p.iter) ==> val(p.Prefix) <= ckey(p.iter, cpos(p.iter))
+//@     invariant[C01, C03, C18, C05] fetched: forall t Int :: 0 <= t && t < len(filterBatch) ==> val(filterBatch[t].Key) == ckey(p.iter, old(cpos(p.iter)) + bidx + t) && val(filterBatch[t].Value) == cval(p.iter, old(cpos(p.iter)) + bidx + t) && pre(val(p.Prefix), val(filterBatch[t].Key))
 //@     invariant[C01, C03] rows: 0 <= j && j < count ==> val(ret[j].Key) == ckey(p.iter, old(cpos(p.iter)) + chooseIdxes[j]) && val(ret[j].Value) == cval(p.iter, old(cpos(p.iter)) + chooseIdxes[j]) && passes(p.Filter, val(ret[j].Key), val(ret[j].Value)) && pre(val(p.Prefix), val(ret[j].Key))
 //@     invariant[C01, C03] gaps: 0 <= j && j < count && gapLo(chooseIdxes, j) <= m && m < chooseIdxes[j] ==> !passes(p.Filter, ckey(p.iter, old(cpos(p.iter)) + m), cval(p.iter, old(cpos(p.iter)) + m))
 //@     invariant[C01, C03] tail: gapLo(chooseIdxes, count) <= m && m < bidx ==> !passes(p.Filter, ckey(p.iter, old(cpos(p.iter)) + m), cval(p.iter, old(cpos(p.iter)) + m))
 //@     invariant[C18] region: 0 <= m && m < bidx ==> pre(val(p.Prefix), ckey(p.iter, old(cpos(p.iter)) + m))
 //@   loop 2
+//@     use csorted(p.iter, old(cpos(p.iter)) + bidx - (rangeindex + 1) - 1, old(cpos(p.iter)) + bidx - (rangeindex + 1))
+//@     use csorted(p.iter, old(cpos(p.iter)) + bidx - (rangeindex + 1) - 1, old(cpos(p.iter)) + bidx - (rangeindex + 1) + len(filterBatch) - 1)
+//@     use csorted(p.iter, old(cpos(p.iter)) + bidx - (rangeindex + 1), old(cpos(p.iter)) + bidx - (rangeindex + 1) + len(filterBatch) - 1)
+//@     invariant[C05] older: ctx.EnableCache ==> (forall S B :: has(ctx.FieldChunkKeyCaches, S) ==> old(cpos(p.iter)) + bidx - (rangeindex + 1) + len(filterBatch) - 1 >= old(cpos(p.iter)) && fkOf(S) <= ckey(p.iter, old(cpos(p.iter)) + bidx - (rangeindex + 1) + len(filterBatch) - 1))
 //@     use csorted(p.iter, cpos(p.iter), cpos(p.iter) + 1)
 //@     invariant[C13] ro: nmut == old(nmut)
 //@     invariant count >= 0 && len(ret) == count && len(chooseIdxes) == count && bidx >= 0 && fresh(ret) && fresh(chooseIdxes) && ascIdx(chooseIdxes, bidx) && len(matchs) == len(filterBatch)
-//@     invariant[C01, C03, C18] at: old(cpos(p.iter)) + bidx + len(filterBatch) - (rangeindex + 1) <= cpos(p.iter) && cpos(p.iter) <= old(cpos(p.iter)) + bidx + len(filterBatch) - (rangeindex + 1) + 1 && ptr(filterBatch) != ptr(ret) && wfCur(p.iter)
-//@     invariant[C01, C03, C18] stop: cpos(p.iter) == old(cpos(p.iter)) + bidx + len(filterBatch) - (rangeindex + 1) + 1 ==> finish && !pre(val(p.Prefix), ckey(p.iter, cpos(p.iter) - 1)) && val(p.Prefix) <= ckey(p.iter, cpos(p.iter) - 1)
-//@     invariant[C01, C03, C18] fin: finish ==> cpos(p.iter) == clen(p.iter) || cpos(p.iter) == old(cpos(p.iter)) + bidx + len(filterBatch) - (rangeindex + 1) + 1
-//@     invariant[C01, C03, C18] ge: cpos(p.iter) < clen(p.iter) ==> val(p.Prefix) <= ckey(p.iter, cpos(p.iter))
-//@     invariant[C01, C03, C18] fetched: forall t Int :: 0 <= t && t < len(filterBatch) ==> val(filterBatch[t].Key) == ckey(p.iter, old(cpos(p.iter)) + bidx - (rangeindex + 1) + t) && val(filterBatch[t].Value) == cval(p.iter, old(cpos(p.iter)) + bidx - (rangeindex + 1) + t) && pre(val(p.Prefix), val(filterBatch[t].Key)) && matchs[t] == passes(p.Filter, val(filterBatch[t].Key), val(filterBatch[t].Value))
+//@     invariant[C01, C03, C18, C05] at: old(cpos(p.iter)) + bidx + len(filterBatch) - (rangeindex + 1) <= cpos(p.iter) && cpos(p.iter) <= old(cpos(p.iter)) + bidx + len(filterBatch) - (rangeindex + 1) + 1 && ptr(filterBatch) != ptr(ret) && wfCur(p.iter)
+//@     invariant[C01, C03, C18, C05] stop: cpos(p.iter) == old(cpos(p.iter)) + bidx + len(filterBatch) - (rangeindex + 1) + 1 ==> finish && !pre(val(p.Prefix), ckey(p.iter, cpos(p.iter) - 1)) && val(p.Prefix) <= ckey(p.iter, cpos(p.iter) - 1)
+//@     invariant[C01, C03, C18, C05] fin: finish ==> cpos(p.iter) == clen(p.iter) || cpos(p.iter) == old(cpos(p.iter)) + bidx + len(filterBatch) - (rangeindex + 1) + 1
+//@     invariant[C01, C03, C18, C05] ge: cpos(p.iter) < clen(p.iter) ==> val(p.Prefix) <= ckey(p.iter, cpos(p.iter))
+//@     invariant[C01, C03, C18, C05] fetched: forall t Int :: 0 <= t && t < len(filterBatch) ==> val(filterBatch[t].Key) == ckey(p.iter, old(cpos(p.iter)) + bidx - (rangeindex + 1) + t) && val(filterBatch[t].Value) == cval(p.iter, old(cpos(p.iter)) + bidx - (rangeindex + 1) + t) && pre(val(p.Prefix), val(filterBatch[t].Key)) && matchs[t] == passes(p.Filter, val(filterBatch[t].Key), val(filterBatch[t].Value))
 //@     invariant[C01, C03] rows: 0 <= j && j < count ==> val(ret[j].Key) == ckey(p.iter, old(cpos(p.iter)) + chooseIdxes[j]) && val(ret[j].Value) == cval(p.iter, old(cpos(p.iter)) + chooseIdxes[j]) && passes(p.Filter, val(ret[j].Key), val(ret[j].Value)) && pre(val(p.Prefix), val(ret[j].Key))
 //@     invariant[C01, C03] gaps: 0 <= j && j < count && gapLo(chooseIdxes, j) <= m && m < chooseIdxes[j] ==> !passes(p.Filter, ckey(p.iter, old(cpos(p.iter)) + m), cval(p.iter, old(cpos(p.iter)) + m))
 //@     invariant[C01, C03] tail: gapLo(chooseIdxes, count) <= m && m < bidx ==> !passes(p.Filter, ckey(p.iter, old(cpos(p.iter)) + m), cval(p.iter, old(cpos(p.iter)) + m))
@@ -463,6 +710,7 @@ package kvql
 //@   requires p != nil && wfFilter(p.Filter) && wfCur(p.iter) && !failed && ctx != nil && PlanBatchSize > 0 && (ctx.EnableCache ==> ctx.FieldChunkCaches != nil)
 //@   requires (cpos(p.iter) < clen(p.iter) ==> (isnil(p.Start) || val(p.Start) <= ckey(p.iter, cpos(p.iter))))
 //@   useatret csorted(p.iter, cpos(p.iter) - 1, m)
+//@   requires[C05] c5: (ctx.EnableCache ==> (forall q B :: !has(ctx.FieldChunkKeyCaches, q))) && wfCtxB(ctx) && wfRefs()
 //@   assigns cpos(p.iter), nops, failed, lastErr, ctx.Hit, mapof(ctx.FieldCaches), mapof(ctx.FieldChunkKeyCaches), mapof(ctx.FieldChunkCaches)
 //@   ensures[C01, C03] pos: err == nil ==> wfCur(p.iter) && old(cpos(p.iter)) <= cpos(p.iter) && len(local(chooseIdxes)) == len(ret) && ascIdx(local(chooseIdxes), cpos(p.iter) - old(cpos(p.iter)))
 //@   ensures[C01, C03] rows: err == nil && 0 <= j && j < len(ret) ==> val(ret[j].Key) == ckey(p.iter, old(cpos(p.iter)) + local(chooseIdxes)[j]) && val(ret[j].Value) == cval(p.iter, old(cpos(p.iter)) + local(chooseIdxes)[j]) && passes(p.Filter, val(ret[j].Key), val(ret[j].Value)) && inRng(p, val(ret[j].Key))
@@ -474,38 +722,45 @@ package kvql
 //@   ensures[C13] readonly: nmut == old(nmut)
 //@   ensures[C13] surfaced: (failed ==> err == lastErr) && (err == nil ==> !failed)
 //@   loop 0
+//@     invariant[C05] older: ctx.EnableCache ==> (forall S B :: has(ctx.FieldChunkKeyCaches, S) ==> old(cpos(p.iter)) + bidx - 1 >= old(cpos(p.iter)) && fkOf(S) <= ckey(p.iter, old(cpos(p.iter)) + bidx - 1))
 //@     use csorted(p.iter, cpos(p.iter), cpos(p.iter) + 1)
 //@     invariant[C13] ro: nmut == old(nmut)
 //@     invariant wfCur(p.iter) && !failed && count >= 0 && len(ret) == count && len(chooseIdxes) == count && bidx >= 0 && fresh(ret) && fresh(chooseIdxes) && fresh(filterBatch) && ascIdx(chooseIdxes, bidx)
-//@     invariant[C01, C03, C18] at: old(cpos(p.iter)) + bidx <= cpos(p.iter) && cpos(p.iter) <= old(cpos(p.iter)) + bidx + 1 && ptr(filterBatch) != ptr(ret)
-//@     invariant[C01, C03, C18] stop: cpos(p.iter) == old(cpos(p.iter)) + bidx + 1 ==> finish && !isnil(p.End) && val(p.End) < ckey(p.iter, cpos(p.iter) - 1)
-//@     invariant[C01, C03, C18] fin: finish ==> count >= PlanBatchSize || cpos(p.iter) == clen(p.iter) || cpos(p.iter) == old(cpos(p.iter)) + bidx + 1
-//@     invariant[C01, C03, C18] ge: cpos(p.iter) < clen(p.iter) ==> (isnil(p.Start) || val(p.Start) <= ckey(p.iter, cpos(p.iter)))
+//@     invariant[C01, C03, C18, C05] at: old(cpos(p.iter)) + bidx <= cpos(p.iter) && cpos(p.iter) <= old(cpos(p.iter)) + bidx + 1 && ptr(filterBatch) != ptr(ret)
+//@     invariant[C01, C03, C18, C05] stop: cpos(p.iter) == old(cpos(p.iter)) + bidx + 1 ==> finish && !isnil(p.End) && val(p.End) < ckey(p.iter, cpos(p.iter) - 1)
+//@     invariant[C01, C03, C18, C05] fin: finish ==> count >= PlanBatchSize || cpos(p.iter) == clen(p.iter) || cpos(p.iter) == old(cpos(p.iter)) + bidx + 1
+//@     invariant[C01, C03, C18, C05] ge: cpos(p.iter) < clen(p.iter) ==> (isnil(p.Start) || val(p.Start) <= ckey(p.iter, cpos(p.iter)))
 //@     invariant[C01, C03] rows: 0 <= j && j < count ==> val(ret[j].Key) == ckey(p.iter, old(cpos(p.iter)) + chooseIdxes[j]) && val(ret[j].Value) == cval(p.iter, old(cpos(p.iter)) + chooseIdxes[j]) && passes(p.Filter, val(ret[j].Key), val(ret[j].Value)) && inRng(p, val(ret[j].Key))
 //@     invariant[C01, C03] gaps: 0 <= j && j < count && gapLo(chooseIdxes, j) <= m && m < chooseIdxes[j] ==> !passes(p.Filter, ckey(p.iter, old(cpos(p.iter)) + m), cval(p.iter, old(cpos(p.iter)) + m))
 //@     invariant[C01, C03] tail: gapLo(chooseIdxes, count) <= m && m < bidx ==> !passes(p.Filter, ckey(p.iter, old(cpos(p.iter)) + m), cval(p.iter, old(cpos(p.iter)) + m))
 //@     invariant[C18] region: 0 <= m && m < bidx ==> inRng(p, ckey(p.iter, old(cpos(p.iter)) + m))
 //@   loop 1
+//@     use csorted(p.iter, old(cpos(p.iter)) + bidx - 1, old(cpos(p.iter)) + bidx)
+//@     invariant[C05] older: ctx.EnableCache ==> (forall S B :: has(ctx.FieldChunkKeyCaches, S) ==> old(cpos(p.iter)) + bidx - 1 >= old(cpos(p.iter)) && fkOf(S) <= ckey(p.iter, old(cpos(p.iter)) + bidx - 1))
 //@     use csorted(p.iter, cpos(p.iter), cpos(p.iter) + 1)
 //@     invariant[C13] ro: nmut == old(nmut)
 //@     invariant wfCur(p.iter) && !failed && 0 <= i && i <= PlanBatchSize && len(filterBatch) <= i && fresh(filterBatch)
 //@     invariant count >= 0 && len(ret) == count && len(chooseIdxes) == count && bidx >= 0 && fresh(ret) && fresh(chooseIdxes) && ascIdx(chooseIdxes, bidx)
-//@     invariant[C01, C03, C18] at: cpos(p.iter) == old(cpos(p.iter)) + bidx + len(filterBatch) && ptr(filterBatch) != ptr(ret) && !finish
-//@     invariant[C01, C03, C18] ge: cpos(p.iter) < clen(p.iter) ==> (isnil(p.Start) || val(p.Start) <= ckey(p.iter, cpos(p.iter)))
-//@     invariant[C01, C03, C18] fetched: forall t Int :: 0 <= t && t < len(filterBatch) ==> val(filterBatch[t].Key) == ckey(p.iter, old(cpos(p.iter)) + bidx + t) && val(filterBatch[t].Value) == cval(p.iter, old(cpos(p.iter)) + bidx + t) && inRng(p, val(filterBatch[t].Key))
+//@     invariant[C01, C03, C18, C05] at: cpos(p.iter) == old(cpos(p.iter)) + bidx + len(filterBatch) && ptr(filterBatch) != ptr(ret) && !finish
+//@     invariant[C01, C03, C18, C05] ge: cpos(p.iter) < clen(p.iter) ==> (isnil(p.Start) || val(p.Start) <= ckey(p.iter, cpos(p.iter)))
+//@     invariant[C01, C03, C18, C05] fetched: forall t Int :: 0 <= t && t < len(filterBatch) ==> val(filterBatch[t].Key) == ckey(p.iter, old(cpos(p.iter)) + bidx + t) && val(filterBatch[t].Value) == cval(p.iter, old(cpos(p.iter)) + bidx + t) && inRng(p, val(filterBatch[t].Key))
 //@     invariant[C01, C03] rows: 0 <= j && j < count ==> val(ret[j].Key) == ckey(p.iter, old(cpos(p.iter)) + chooseIdxes[j]) && val(ret[j].Value) == cval(p.iter, old(cpos(p.iter)) + chooseIdxes[j]) && passes(p.Filter, val(ret[j].Key), val(ret[j].Value)) && inRng(p, val(ret[j].Key))
 //@     invariant[C01, C03] gaps: 0 <= j && j < count && gapLo(chooseIdxes, j) <= m && m < chooseIdxes[j] ==> !passes(p.Filter, ckey(p.iter, old(cpos(p.iter)) + m), cval(p.iter, old(cpos(p.iter)) + m))
 //@     invariant[C01, C03] tail: gapLo(chooseIdxes, count) <= m && m < bidx ==> !passes(p.Filter, ckey(p.iter, old(cpos(p.iter)) + m), cval(p.iter, old(cpos(p.iter)) + m))
 //@     invariant[C18] region: 0 <= m && m < bidx ==> inRng(p, ckey(p.iter, old(cpos(p.iter)) + m))
 //@   loop 2
+//@     use csorted(p.iter, old(cpos(p.iter)) + bidx - (rangeindex + 1) - 1, old(cpos(p.iter)) + bidx - (rangeindex + 1))
+//@     use csorted(p.iter, old(cpos(p.iter)) + bidx - (rangeindex + 1) - 1, old(cpos(p.iter)) + bidx - (rangeindex + 1) + len(filterBatch) - 1)
+//@     use csorted(p.iter, old(cpos(p.iter)) + bidx - (rangeindex + 1), old(cpos(p.iter)) + bidx - (rangeindex + 1) + len(filterBatch) - 1)
+//@     invariant[C05] older: ctx.EnableCache ==> (forall S B :: has(ctx.FieldChunkKeyCaches, S) ==> old(cpos(p.iter)) + bidx - (rangeindex + 1) + len(filterBatch) - 1 >= old(cpos(p.iter)) && fkOf(S) <= ckey(p.iter, old(cpos(p.iter)) + bidx - (rangeindex + 1) + len(filterBatch) - 1))
 //@     use csorted(p.iter, cpos(p.iter), cpos(p.iter) + 1)
 //@     invariant[C13] ro: nmut == old(nmut)
 //@     invariant count >= 0 && len(ret) == count && len(chooseIdxes) == count && bidx >= 0 && fresh(ret) && fresh(chooseIdxes) && ascIdx(chooseIdxes, bidx) && len(matchs) == len(filterBatch)
-//@     invariant[C01, C03, C18] at: old(cpos(p.iter)) + bidx + len(filterBatch) - (rangeindex + 1) <= cpos(p.iter) && cpos(p.iter) <= old(cpos(p.iter)) + bidx + len(filterBatch) - (rangeindex + 1) + 1 && ptr(filterBatch) != ptr(ret) && wfCur(p.iter)
-//@     invariant[C01, C03, C18] stop: cpos(p.iter) == old(cpos(p.iter)) + bidx + len(filterBatch) - (rangeindex + 1) + 1 ==> finish && !isnil(p.End) && val(p.End) < ckey(p.iter, cpos(p.iter) - 1)
-//@     invariant[C01, C03, C18] fin: finish ==> cpos(p.iter) == clen(p.iter) || cpos(p.iter) == old(cpos(p.iter)) + bidx + len(filterBatch) - (rangeindex + 1) + 1
-//@     invariant[C01, C03, C18] ge: cpos(p.iter) < clen(p.iter) ==> (isnil(p.Start) || val(p.Start) <= ckey(p.iter, cpos(p.iter)))
-//@     invariant[C01, C03, C18] fetched: forall t Int :: 0 <= t && t < len(filterBatch) ==> val(filterBatch[t].Key) == ckey(p.iter, old(cpos(p.iter)) + bidx - (rangeindex + 1) + t) && val(filterBatch[t].Value) == cval(p.iter, old(cpos(p.iter)) + bidx - (rangeindex + 1) + t) && inRng(p, val(filterBatch[t].Key)) && matchs[t] == passes(p.Filter, val(filterBatch[t].Key), val(filterBatch[t].Value))
+//@     invariant[C01, C03, C18, C05] at: old(cpos(p.iter)) + bidx + len(filterBatch) - (rangeindex + 1) <= cpos(p.iter) && cpos(p.iter) <= old(cpos(p.iter)) + bidx + len(filterBatch) - (rangeindex + 1) + 1 && ptr(filterBatch) != ptr(ret) && wfCur(p.iter)
+//@     invariant[C01, C03, C18, C05] stop: cpos(p.iter) == old(cpos(p.iter)) + bidx + len(filterBatch) - (rangeindex + 1) + 1 ==> finish && !isnil(p.End) && val(p.End) < ckey(p.iter, cpos(p.iter) - 1)
+//@     invariant[C01, C03, C18, C05] fin: finish ==> cpos(p.iter) == clen(p.iter) || cpos(p.iter) == old(cpos(p.iter)) + bidx + len(filterBatch) - (rangeindex + 1) + 1
+//@     invariant[C01, C03, C18, C05] ge: cpos(p.iter) < clen(p.iter) ==> (isnil(p.Start) || val(p.Start) <= ckey(p.iter, cpos(p.iter)))
+//@     invariant[C01, C03, C18, C05] fetched: forall t Int :: 0 <= t && t < len(filterBatch) ==> val(filterBatch[t].Key) == ckey(p.iter, old(cpos(p.iter)) + bidx - (rangeindex + 1) + t) && val(filterBatch[t].Value) == cval(p.iter, old(cpos(p.iter)) + bidx - (rangeindex + 1) + t) && inRng(p, val(filterBatch[t].Key)) && matchs[t] == passes(p.Filter, val(filterBatch[t].Key), val(filterBatch[t].Value))
 //@     invariant[C01, C03] rows: 0 <= j && j < count ==> val(ret[j].Key) == ckey(p.iter, old(cpos(p.iter)) + chooseIdxes[j]) && val(ret[j].Value) == cval(p.iter, old(cpos(p.iter)) + chooseIdxes[j]) && passes(p.Filter, val(ret[j].Key), val(ret[j].Value)) && inRng(p, val(ret[j].Key))
 //@     invariant[C01, C03] gaps: 0 <= j && j < count && gapLo(chooseIdxes, j) <= m && m < chooseIdxes[j] ==> !passes(p.Filter, ckey(p.iter, old(cpos(p.iter)) + m), cval(p.iter, old(cpos(p.iter)) + m))
 //@     invariant[C01, C03] tail: gapLo(chooseIdxes, count) <= m && m < bidx ==> !passes(p.Filter, ckey(p.iter, old(cpos(p.iter)) + m), cval(p.iter, old(cpos(p.iter)) + m))
@@ -516,7 +771,7 @@ package kvql
 // every stored, passing key read in the call is among the returned pairs is not stated: it needs an
 // existential over the result, which the solvers do not carry through the three loops.)
 //@ func (p *MultiGetPlan) Batch(ctx *ExecuteCtx) (ret []KVPair, err error)
-//@   props C01 C03 C13 C18 C05
+//@   props C01 C03 C13 C18
 //@   splitlatch
 //@   ghost j Int
 //@   ghost m Int
